@@ -1,5 +1,1635 @@
 /- Helper lemmas for C09 (unknown outcomes and the retry loop). -/
 import KB.Props.C02Store
 import KB.Props.C01
+import KB.Props.C03
+import KB.Lemmas.Engine
 namespace KB
+open Generated SysStore
+
+/-! ### case analysis of a client step, keeping the link between the written key / value and the request -/
+
+/-- key and value a create-path request writes (exactly the inline `match` of `stepClient`) -/
+def ReqKind.kv : ReqKind → Bytes × Bytes
+  | .create k v => (k, v)
+  | .update k v _ => (k, v)
+  | .delete k _ => (k, [])
+
+theorem ReqKind.kv_key (k : ReqKind) : k.kv.1 = k.key := by cases k <;> rfl
+
+theorem stepClient_cases' {P : G → Prop} (g : G) (c : Client) (f : Fault)
+    (hStartCreate : ∀ key val, c.pc = .start → c.kind = .create key val →
+      P (G.setClient { g with dealt := g.dealt + 1 } { c with pc := .createCommit (g.dealt + 1) }))
+    (hStartUpdate : ∀ key val exp, c.pc = .start → c.kind = .update key val exp →
+      P (if exp == 0 then G.setClient { g with dealt := g.dealt + 1 } { c with pc := .createCommit (g.dealt + 1) }
+         else if g.dealt + 1 < exp then
+           (G.notify { g with dealt := g.dealt + 1 } (mkW (g.dealt + 1) exp false .put key val)).finish c (.error .drift) (g.dealt + 1)
+         else G.setClient { g with dealt := g.dealt + 1 } { c with pc := .updateCommit (g.dealt + 1) }))
+    (hCreateCommit : ∀ rev key val r st, c.pc = .createCommit rev → c.kind.kv = (key, val) →
+      doCommit g.cfg g.store (createOps key val rev) f = (r, st) →
+      P (match r with
+         | .conflict idx cv =>
+           if idx == some 0 then createSawIndex (afterCommit g r st f key rev (some val) .absent) c key val rev (cv.getD [])
+           else (afterCommit g r st f key rev (some val) .absent).setClient { c with pc := .createReread rev }
+         | r' => finishCreate (afterCommit g r st f key rev (some val) .absent) c key val rev r'))
+    (hCreateReread : ∀ rev key val, c.pc = .createReread rev → c.kind.kv = (key, val) →
+      P (match g.store.get (idxKey key) with
+         | some old => createSawIndex g c key val rev old
+         | none => g.setClient { c with pc := .createRetry rev }))
+    (hCreateRetry : ∀ rev key val r st, c.pc = .createRetry rev → c.kind.kv = (key, val) →
+      doCommit g.cfg g.store (createOps key val rev) f = (r, st) →
+      P (finishCreate (afterCommit g r st f key rev (some val) .absent) c key val rev r))
+    (hCreateOver : ∀ rev old key val r st, c.pc = .createOver rev old → c.kind.kv = (key, val) →
+      doCommit g.cfg g.store [BOp.cas (idxKey key) (be8 rev) old, BOp.put (encode key rev) val] f = (r, st) →
+      P (finishCreate (afterCommit g r st f key rev (some val) .absent) c key val rev r))
+    (hUpdateCommit : ∀ rev key val exp r st, c.pc = .updateCommit rev → c.kind = .update key val exp →
+      doCommit g.cfg g.store [BOp.cas (idxKey key) (be8 rev) (be8 exp), BOp.put (encode key rev) val] f = (r, st) →
+      P (match r with
+         | .ok => ((afterCommit g r st f key rev (some val) (.rev exp)).notify
+                    (mkW rev exp (r == .ok) .put key val (r == .uncertain))).finish c (.ok rev) rev
+         | .conflict _ _ => ((afterCommit g r st f key rev (some val) (.rev exp)).notify
+                    (mkW rev exp (r == .ok) .put key val (r == .uncertain))).setClient { c with pc := .readLatest rev none }
+         | r' => ((afterCommit g r st f key rev (some val) (.rev exp)).notify
+                    (mkW rev exp (r == .ok) .put key val (r == .uncertain))).finish c (.error (commitErr r')) rev))
+    (hStartDelete : ∀ key exp, c.pc = .start → c.kind = .delete key exp →
+      P (match bget g.cfg g.store key 0 with
+         | .notFound _ => g.setClient { c with pc := .deleteDeal none }
+         | .found v m => g.setClient { c with pc := .deleteDeal (some (v, m)) }))
+    (hDeleteDealNone : ∀ key exp, c.pc = .deleteDeal none → c.kind = .delete key exp →
+      P ((G.notify { g with dealt := g.dealt + 1 } (mkW (g.dealt + 1) 0 false .delete key [])).finish c
+          (.notFound (g.dealt + 1)) (g.dealt + 1)))
+    (hDeleteDealSome : ∀ oldVal modRev key exp, c.pc = .deleteDeal (some (oldVal, modRev)) → c.kind = .delete key exp →
+      P (if exp > 0 && g.dealt + 1 < exp then
+           (G.notify { g with dealt := g.dealt + 1 } (mkW (g.dealt + 1) modRev false .delete key oldVal)).finish c (.error .drift) (g.dealt + 1)
+         else if exp > 0 && exp != modRev then
+           (G.notify { g with dealt := g.dealt + 1 } (mkW (g.dealt + 1) modRev false .delete key oldVal)).setClient
+             { c with pc := .readLatest (g.dealt + 1) (some (key, oldVal, modRev)) }
+         else if g.dealt + 1 ≤ modRev then
+           (G.notify { g with dealt := g.dealt + 1 } (mkW (g.dealt + 1) modRev false .delete key oldVal)).finish c (.error .other) (g.dealt + 1)
+         else G.setClient { g with dealt := g.dealt + 1 } { c with pc := .deleteCommit (g.dealt + 1) oldVal modRev }))
+    (hDeleteCommit : ∀ rev oldVal modRev key exp r st, c.pc = .deleteCommit rev oldVal modRev → c.kind = .delete key exp →
+      doCommit g.cfg g.store [BOp.cas (idxKey key) (be8 rev ++ [0]) (be8 modRev), BOp.put (encode key rev) tombstone] f = (r, st) →
+      P (match r with
+         | .ok => ((afterCommit g r st f key rev none (.rev modRev)).notify
+                    (mkW rev modRev (r == .ok) .delete key oldVal (r == .uncertain))).finish c (.ok rev) rev
+         | .conflict _ _ => ((afterCommit g r st f key rev none (.rev modRev)).notify
+                    (mkW rev modRev (r == .ok) .delete key oldVal (r == .uncertain))).setClient
+                      { c with pc := .readLatest rev (some (key, oldVal, modRev)) }
+         | r' => ((afterCommit g r st f key rev none (.rev modRev)).notify
+                    (mkW rev modRev (r == .ok) .delete key oldVal (r == .uncertain))).finish c (.error (commitErr r')) rev))
+    (hReadLatest : ∀ rev fb, c.pc = .readLatest rev fb →
+      P (match bget g.cfg g.store c.kind.key 0 with
+         | .found v m => g.finish c (.condFailed (max rev m) (some (c.kind.key, v, m))) rev
+         | .notFound _ => g.finish c (.condFailed rev fb) rev))
+    (hNop : P g) : P (stepClient g c f) := by
+  obtain ⟨id, kind, pc, bd⟩ := c
+  unfold stepClient
+  split
+  · exact hStartCreate _ _ ‹_› ‹_›
+  · exact hStartUpdate _ _ _ ‹_› ‹_›
+  · cases kind <;>
+    · simp only []
+      generalize hdc : doCommit g.cfg g.store (createOps _ _ _) f = p
+      obtain ⟨r, st⟩ := p
+      have hL := hCreateCommit _ _ _ r st ‹_› rfl hdc
+      cases r <;> simpa only [afterCommit] using hL
+  · cases kind <;> exact hCreateReread _ _ _ ‹_› rfl
+  · cases kind <;>
+    · simp only []
+      generalize hdc : doCommit g.cfg g.store (createOps _ _ _) f = p
+      obtain ⟨r, st⟩ := p
+      have hL := hCreateRetry _ _ _ r st ‹_› rfl hdc
+      cases r <;> simpa only [afterCommit] using hL
+  · cases kind <;>
+    · simp only []
+      generalize hdc : doCommit g.cfg g.store _ f = p
+      obtain ⟨r, st⟩ := p
+      have hL := hCreateOver _ _ _ _ r st ‹_› rfl hdc
+      cases r <;> simpa only [afterCommit] using hL
+  · simp only []
+    generalize hdc : doCommit g.cfg g.store _ f = p
+    obtain ⟨r, st⟩ := p
+    have hL := hUpdateCommit _ _ _ _ r st ‹_› ‹_› hdc
+    cases r <;> simpa only [afterCommit] using hL
+  · exact hStartDelete _ _ ‹_› ‹_›
+  · exact hDeleteDealNone _ _ ‹_› ‹_›
+  · exact hDeleteDealSome _ _ _ _ ‹_› ‹_›
+  · simp only []
+    generalize hdc : doCommit g.cfg g.store _ f = p
+    obtain ⟨r, st⟩ := p
+    have hL := hDeleteCommit _ _ _ _ _ r st ‹_› ‹_› hdc
+    cases r <;> simpa only [afterCommit] using hL
+  · exact hReadLatest _ _ ‹_›
+  · exact hNop
+
+/-! ### the effect of one client step -/
+
+/-- the value a request writes (`none` for a delete) -/
+def ReqKind.wval : ReqKind → Option Bytes
+  | .create _ v => some v
+  | .update _ v _ => some v
+  | .delete _ _ => none
+
+def Pc.createPath : Pc → Bool
+  | .createCommit _ | .createReread _ | .createRetry _ | .createOver _ _ => true
+  | _ => false
+
+def ValOK (v : Bytes) : Prop := v ≠ [] ∧ v ≠ tombstone
+
+/-- per-request well-formedness: only creates / updates are on the create path -/
+structure CK (c : Client) : Prop where
+  path : c.pc.createPath = true → c.kind.wval = some c.kind.kv.2
+
+/-- request kinds the convergence theorem is about: key over the alphabet, value neither empty nor the
+deletion marker -/
+structure KOK (k : ReqKind) : Prop where
+  alph : Alphabet k.key
+  val : ∀ v, k.wval = some v → ValOK v
+
+/-- a revision the stepping request may report to the sequencer -/
+def RevI (g : G) (c : Client) (r : Nat) : Prop :=
+  c.pc.inflight = some r ∨ (c.pc.held = none ∧ r = g.dealt + 1)
+
+/-- a revision the stepping request may hold / return with -/
+def RevH (g : G) (c : Client) (r : Nat) : Prop :=
+  c.pc.held = some r ∨ (c.pc.held = none ∧ r = g.dealt + 1)
+
+theorem RevI.toH {g : G} {c : Client} {r : Nat} (h : RevI g c r) : RevH g c r := by
+  rcases h with h | h
+  · exact .inl (Pc.held_of_inflight h)
+  · exact .inr h
+
+def VerbOK (s : WEvent) (x : WLog) : Prop := (s.verb == .delete) = x.val.isNone
+
+/-- what no client step touches -/
+structure Frame (g g' : G) : Prop where
+  cfg : g'.cfg = g.cfg
+  retryQ : g'.retryQ = g.retryQ
+  emitted : g'.emitted = g.emitted
+  committed : g'.committed = g.committed
+
+/-- the step applied a batch: one log entry, its slot filled in the same step, the request returns -/
+structure AppliedEff (g : G) (c : Client) (g' : G) (x : WLog) (s : WEvent) (d : Done) : Prop where
+  frame : Frame g g'
+  wlog : g'.wlog = g.wlog ++ [x]
+  store : g'.store = wstore g.store x.key x.rev (be8 x.rev ++ flagOf x.val) (x.val.getD tombstone)
+  slots : g'.slots = g.slots ++ [s]
+  done : g'.done = g.done ++ [d]
+  clients : g'.clients = others g.clients c.id
+  dealt : g'.dealt = g.dealt
+  infl : c.pc.inflight = some x.rev
+  xkey : x.key = c.kind.key
+  xval : ∀ v, x.val = some v → c.kind.wval = some v
+  skey : s.key = x.key
+  srev : s.rev = x.rev
+  sflag : s.valid = true ∨ s.uncertain = true
+  verb : VerbOK s x
+  dkind : d.kind = c.kind
+  drev : d.rev = x.rev
+  dres : d.res = .ok x.rev ∨ ∃ e, d.res = .error e
+
+/-- the step applied nothing -/
+structure IdleEff (g : G) (c : Client) (g' : G) : Prop where
+  frame : Frame g g'
+  wlog : g'.wlog = g.wlog
+  store : g'.store = g.store
+  slots : ∃ sl, g'.slots = g.slots ++ sl ∧ sl.length ≤ 1 ∧
+    ∀ s ∈ sl, s.valid = false ∧ s.key = c.kind.key ∧ RevI g c s.rev
+  done : g'.done = g.done ∨ ∃ d, g'.done = g.done ++ [d] ∧ d.kind = c.kind ∧ (∀ rv, d.res ≠ .ok rv) ∧ RevH g c d.rev
+  clients : ∀ c' ∈ g'.clients, (c' ∈ g.clients ∧ c'.id ≠ c.id) ∨
+    (c'.id = c.id ∧ c'.kind = c.kind ∧ CK c' ∧ ∀ r, c'.pc.held = some r → RevH g c r)
+  dealt : g'.dealt = g.dealt ∨ (g'.dealt = g.dealt + 1 ∧ c.pc.held = none)
+
+def Eff (g : G) (c : Client) (g' : G) : Prop :=
+  (∃ x s d, AppliedEff g c g' x s d) ∨ IdleEff g c g'
+
+/-- intermediate state of a step that applies nothing: only `dealt` and `slots` may have moved -/
+structure Mid (g : G) (c : Client) (g1 : G) (sl : List WEvent) : Prop where
+  frame : Frame g g1
+  wlog : g1.wlog = g.wlog
+  store : g1.store = g.store
+  slots : g1.slots = g.slots ++ sl
+  done : g1.done = g.done
+  clients : g1.clients = g.clients
+  dealt : g1.dealt = g.dealt ∨ (g1.dealt = g.dealt + 1 ∧ c.pc.held = none)
+
+theorem Mid.refl (g : G) (c : Client) : Mid g c g [] :=
+  ⟨⟨rfl, rfl, rfl, rfl⟩, rfl, rfl, by simp, rfl, rfl, .inl rfl⟩
+
+theorem Mid.deal (g : G) (c : Client) (h : c.pc.held = none) : Mid g c { g with dealt := g.dealt + 1 } [] :=
+  ⟨⟨rfl, rfl, rfl, rfl⟩, rfl, rfl, by simp, rfl, rfl, .inr ⟨rfl, h⟩⟩
+
+theorem Mid.notify {g : G} {c : Client} {g1 : G} (h : Mid g c g1 []) (s : WEvent) (hs : s.rev ≠ 0) :
+    Mid g c (g1.notify s) [s] := by
+  obtain ⟨⟨a1, a2, a3, a4⟩, b, c', d, e, f', g'⟩ := h
+  have hn : g1.notify s = { g1 with slots := g1.slots ++ [s] } := by simp [G.notify, hs]
+  rw [hn]
+  exact ⟨⟨a1, a2, a3, a4⟩, b, c', by simpa using d, e, f', g'⟩
+
+theorem mem_setClient {g : G} {c' x : Client} (h : x ∈ (g.setClient c').clients) :
+    (x ∈ g.clients ∧ x.id ≠ c'.id) ∨ x = c' := by
+  simp only [G.setClient, List.mem_map] at h
+  obtain ⟨y, hy, rfl⟩ := h
+  by_cases e : y.id = c'.id
+  · right; simp [e]
+  · left; simp [e, hy]
+
+theorem Mid.finish {g : G} {c : Client} {g1 : G} {sl : List WEvent} (h : Mid g c g1 sl) (hl : sl.length ≤ 1)
+    (hsl : ∀ s ∈ sl, s.valid = false ∧ s.key = c.kind.key ∧ RevI g c s.rev)
+    {res : WriteRes} (hres : ∀ rv, res ≠ .ok rv) {rev : Nat} (hrev : RevH g c rev) :
+    IdleEff g c (g1.finish c res rev) := by
+  obtain ⟨⟨a1, a2, a3, a4⟩, b, c', d, e, f', g'⟩ := h
+  refine ⟨⟨a1, a2, a3, a4⟩, b, c', ⟨sl, d, hl, hsl⟩, .inr ⟨_, by simp only [G.finish, e]; rfl, rfl, hres, hrev⟩, ?_, g'⟩
+  intro x hx
+  simp only [G.finish_clients, mem_others, f'] at hx
+  exact .inl hx
+
+theorem Mid.set {g : G} {c : Client} {g1 : G} {sl : List WEvent} (h : Mid g c g1 sl) (hl : sl.length ≤ 1)
+    (hsl : ∀ s ∈ sl, s.valid = false ∧ s.key = c.kind.key ∧ RevI g c s.rev)
+    {c' : Client} (hid : c'.id = c.id) (hkd : c'.kind = c.kind) (hck : CK c')
+    (hh : ∀ r, c'.pc.held = some r → RevH g c r) :
+    IdleEff g c (g1.setClient c') := by
+  obtain ⟨⟨a1, a2, a3, a4⟩, b, c'', d, e, f', g'⟩ := h
+  refine ⟨⟨a1, a2, a3, a4⟩, b, c'', ⟨sl, d, hl, hsl⟩, .inl e, ?_, g'⟩
+  intro x hx
+  rcases mem_setClient hx with ⟨h1, h2⟩ | rfl
+  · rw [f'] at h1; rw [hid] at h2; exact .inl ⟨h1, h2⟩
+  · exact .inr ⟨hid, hkd, hck, hh⟩
+
+theorem afterCommit_idle {g : G} {r : CommitRes} {f : Fault} (ha : applied r f = false) (key : Bytes) (rev : Nat)
+    (val : Option Bytes) (exp : Expect) : afterCommit g r g.store f key rev val exp = g := by
+  simp [afterCommit, ha]
+
+theorem applied_cases {r : CommitRes} {f : Fault} (ha : applied r f = true) : r = .ok ∨ r = .uncertain := by
+  cases r <;> simp [applied] at ha ⊢
+
+theorem not_ok_of_idle {r : CommitRes} {f : Fault} (ha : applied r f = false) : r ≠ .ok := by
+  rintro rfl; simp [applied] at ha
+
+theorem AppliedEff.mk' {g : G} {c : Client} {r : CommitRes} {f : Fault} {st : Store} {key : Bytes} {rev : Nat}
+    {val : Option Bytes} {exp : Expect} {s : WEvent} {res : WriteRes}
+    (ha : applied r f = true) (hst : st = wstore g.store key rev (be8 rev ++ flagOf val) (val.getD tombstone))
+    (hi : c.pc.inflight = some rev) (h0 : rev ≠ 0) (hk : key = c.kind.key) (hv : ∀ v, val = some v → c.kind.wval = some v)
+    (hsk : s.key = key) (hsr : s.rev = rev) (hsf : s.valid = true ∨ s.uncertain = true)
+    (hverb : (s.verb == .delete) = val.isNone) (hres : res = .ok rev ∨ ∃ e, res = .error e) :
+    AppliedEff g c (((afterCommit g r st f key rev val exp).notify s).finish c res rev)
+      ⟨key, rev, val, exp⟩ s ⟨c.id, c.kind, res, rev, c.beginDealt, g.dealt⟩ := by
+  have hs0 : (s.rev == 0) = false := by simp [hsr, h0]
+  constructor <;> (try simp only [afterCommit, ha, if_true, G.notify, hs0, Bool.false_eq_true, if_false, G.finish,
+    G.logWrite, hst])
+  all_goals first
+    | assumption
+    | rfl
+    | exact ⟨rfl, rfl, rfl, rfl⟩
+
+theorem CK.setPc {c : Client} (h : CK c) {pc : Pc} (hp : pc.createPath = true → c.kind.wval = some c.kind.kv.2) :
+    CK { c with pc := pc } := ⟨hp⟩
+
+theorem eff_finishCreate_idle {g : G} {c : Client} {g1 : G} (h : Mid g c g1 []) (hck : CK c) {key : Bytes} (val : Bytes)
+    {rev : Nat} (hi : c.pc.inflight = some rev) (h0 : rev ≠ 0) (hk : key = c.kind.key) {r : CommitRes} (hr : r ≠ .ok) :
+    IdleEff g c (finishCreate g1 c key val rev r) := by
+  unfold finishCreate
+  have hm := h.notify (mkW rev 0 (r == .ok) .create key val (r == .uncertain)) h0
+  have hsl : ∀ s ∈ [mkW rev 0 (r == .ok) .create key val (r == .uncertain)],
+      s.valid = false ∧ s.key = c.kind.key ∧ RevI g c s.rev := by
+    intro s hs
+    simp only [List.mem_singleton] at hs
+    subst hs
+    exact ⟨by simp [mkW, hr], hk, .inl hi⟩
+  have hh : RevH g c rev := .inl (Pc.held_of_inflight hi)
+  split
+  · exact absurd rfl hr
+  · split
+    · refine hm.set (by simp) hsl rfl rfl (hck.setPc (by simp [Pc.createPath])) ?_
+      intro r' hr'
+      simp only [Pc.held, Option.some.injEq] at hr'
+      subst hr'; exact hh
+    · exact hm.finish (by simp) hsl (by simp) hh
+  · exact hm.finish (by simp) hsl (by simp) hh
+
+theorem eff_createSawIndex {g : G} {c : Client} (hck : CK c) {key : Bytes} (val : Bytes)
+    {rev : Nat} (hi : c.pc.inflight = some rev) (h0 : rev ≠ 0) (hk : key = c.kind.key)
+    (hcp : c.pc.createPath = true) (old : Bytes) :
+    IdleEff g c (createSawIndex g c key val rev old) := by
+  unfold createSawIndex
+  split
+  · exact eff_finishCreate_idle (Mid.refl g c) hck val hi h0 hk (by simp)
+  · split
+    · refine (Mid.refl g c).set (by simp) (by simp) rfl rfl (hck.setPc (fun _ => hck.path hcp)) ?_
+      intro r' hr'
+      simp only [Pc.held, Pc.inflight, Option.some.injEq] at hr'
+      subst hr'; exact .inl (Pc.held_of_inflight hi)
+    · exact eff_finishCreate_idle (Mid.refl g c) hck val hi h0 hk (by simp)
+
+theorem eff_finishCreate_applied {g : G} {c : Client} (hck : CK c) {key val : Bytes} {rev : Nat}
+    (hi : c.pc.inflight = some rev) (h0 : rev ≠ 0) (hkv : c.kind.kv = (key, val)) (hcp : c.pc.createPath = true)
+    {r : CommitRes} {f : Fault} {st : Store} (ha : applied r f = true)
+    (hst : st = (g.store.put (idxKey key) (be8 rev)).put (encode key rev) val) :
+    ∃ x s d, AppliedEff g c (finishCreate (afterCommit g r st f key rev (some val) .absent) c key val rev r) x s d := by
+  have hk : key = c.kind.key := by rw [← ReqKind.kv_key, hkv]
+  have hv : ∀ v, some val = some v → c.kind.wval = some v := by
+    intro v hv
+    have := hck.path hcp
+    rw [hkv] at this
+    rw [this]; exact hv
+  have hst' : st = wstore g.store key rev (be8 rev ++ flagOf (some val)) ((some val).getD tombstone) := by
+    simp [wstore, flagOf, hst]
+  rcases applied_cases ha with rfl | rfl
+  · have h := AppliedEff.mk' (g := g) (c := c) (exp := .absent)
+      (s := mkW rev 0 (CommitRes.ok == .ok) .create key val (CommitRes.ok == .uncertain)) (res := .ok rev)
+      ha hst' hi h0 hk hv rfl rfl (.inl rfl) rfl (.inl rfl)
+    exact ⟨_, _, _, by simpa only [finishCreate] using h⟩
+  · have h := AppliedEff.mk' (g := g) (c := c) (exp := .absent)
+      (s := mkW rev 0 (CommitRes.uncertain == .ok) .create key val (CommitRes.uncertain == .uncertain))
+      (res := .error (commitErr .uncertain))
+      ha hst' hi h0 hk hv rfl rfl (.inr rfl) rfl (.inr ⟨_, rfl⟩)
+    exact ⟨_, _, _, by simpa only [finishCreate] using h⟩
+
+/-- generic not-applied commit of update / delete: notify, then return ... -/
+theorem eff_notify_finish_idle {g : G} {c : Client} {key : Bytes} {rev : Nat}
+    (hi : c.pc.inflight = some rev) (h0 : rev ≠ 0) (hk : key = c.kind.key)
+    (s : WEvent) (hs : s.rev = rev ∧ s.key = key ∧ s.valid = false) {res : WriteRes} (hres : ∀ rv, res ≠ .ok rv) :
+    IdleEff g c ((g.notify s).finish c res rev) := by
+  have hm := (Mid.refl g c).notify s (by rw [hs.1]; exact h0)
+  refine hm.finish (by simp) ?_ hres (.inl (Pc.held_of_inflight hi))
+  intro s' hs'
+  simp only [List.mem_singleton] at hs'
+  subst hs'
+  exact ⟨hs.2.2, hs.2.1.trans hk, .inl (hs.1 ▸ hi)⟩
+
+/-- ... or go on to read the latest value -/
+theorem eff_notify_set_idle {g : G} {c : Client} (hck : CK c) {key : Bytes} {rev : Nat}
+    (hi : c.pc.inflight = some rev) (h0 : rev ≠ 0) (hk : key = c.kind.key)
+    (s : WEvent) (hs : s.rev = rev ∧ s.key = key ∧ s.valid = false) (fb : Option (Bytes × Bytes × Nat)) :
+    IdleEff g c ((g.notify s).setClient { c with pc := .readLatest rev fb }) := by
+  have hm := (Mid.refl g c).notify s (by rw [hs.1]; exact h0)
+  refine hm.set (by simp) ?_ rfl rfl (hck.setPc (by simp [Pc.createPath])) ?_
+  · intro s' hs'
+    simp only [List.mem_singleton] at hs'
+    subst hs'
+    exact ⟨hs.2.2, hs.2.1.trans hk, .inl (hs.1 ▸ hi)⟩
+  · intro r' hr'
+    simp only [Pc.held, Option.some.injEq] at hr'
+    subst hr'; exact .inl (Pc.held_of_inflight hi)
+
+/-- Summary of one client step. -/
+theorem stepClient_eff {g : G} {c : Client} (f : Fault) (hck : CK c) (hpos : ∀ r, c.pc.inflight = some r → r ≠ 0)
+    (hid : ∀ c' ∈ g.clients, c'.id = c.id → c' = c) : Eff g c (stepClient g c f) := by
+  apply stepClient_cases'
+  · -- start / create
+    intro key val hpc hk
+    have hh : c.pc.held = none := by rw [hpc]; rfl
+    refine .inr ((Mid.deal g c hh).set (by simp) (by simp) rfl rfl (hck.setPc (fun _ => by rw [hk]; rfl)) ?_)
+    intro r hr
+    simp only [Pc.held, Pc.inflight, Option.some.injEq] at hr
+    exact .inr ⟨hh, hr.symm⟩
+  · -- start / update
+    intro key val exp hpc hk
+    have hh : c.pc.held = none := by rw [hpc]; rfl
+    have hkey : key = c.kind.key := by rw [hk]; rfl
+    split
+    · refine .inr ((Mid.deal g c hh).set (by simp) (by simp) rfl rfl (hck.setPc (fun _ => by rw [hk]; rfl)) ?_)
+      intro r hr
+      simp only [Pc.held, Pc.inflight, Option.some.injEq] at hr
+      exact .inr ⟨hh, hr.symm⟩
+    · split
+      · refine .inr (((Mid.deal g c hh).notify _ (by simp [mkW])).finish (by simp) ?_ (by simp) (.inr ⟨hh, rfl⟩))
+        intro s hs
+        simp only [List.mem_singleton] at hs
+        subst hs
+        exact ⟨rfl, hkey, .inr ⟨hh, rfl⟩⟩
+      · refine .inr ((Mid.deal g c hh).set (by simp) (by simp) rfl rfl (hck.setPc (by simp [Pc.createPath])) ?_)
+        intro r hr
+        simp only [Pc.held, Pc.inflight, Option.some.injEq] at hr
+        exact .inr ⟨hh, hr.symm⟩
+  · -- createCommit
+    intro rev key val r st hpc hkv hdc
+    have hi : c.pc.inflight = some rev := by rw [hpc]; rfl
+    have hcp : c.pc.createPath = true := by rw [hpc]; rfl
+    have h0 := hpos rev hi
+    have hk : key = c.kind.key := by rw [← ReqKind.kv_key, hkv]
+    rcases doCommit_pine_cases hdc with ⟨ha, _, hst⟩ | ⟨ha, hst⟩
+    · have := eff_finishCreate_applied hck hi h0 hkv hcp ha hst
+      rcases applied_cases ha with rfl | rfl <;> exact .inl this
+    · subst hst
+      rw [afterCommit_idle ha]
+      have hne := not_ok_of_idle ha
+      split
+      · split
+        · exact .inr (eff_createSawIndex hck val hi h0 hk hcp _)
+        · refine .inr ((Mid.refl g c).set (by simp) (by simp) rfl rfl (hck.setPc (fun _ => hck.path hcp)) ?_)
+          intro r' hr'
+          simp only [Pc.held, Pc.inflight, Option.some.injEq] at hr'
+          subst hr'; exact .inl (Pc.held_of_inflight hi)
+      · exact .inr (eff_finishCreate_idle (Mid.refl g c) hck val hi h0 hk hne)
+  · -- createReread
+    intro rev key val hpc hkv
+    have hi : c.pc.inflight = some rev := by rw [hpc]; rfl
+    have hcp : c.pc.createPath = true := by rw [hpc]; rfl
+    have h0 := hpos rev hi
+    have hk : key = c.kind.key := by rw [← ReqKind.kv_key, hkv]
+    split
+    · exact .inr (eff_createSawIndex hck val hi h0 hk hcp _)
+    · refine .inr ((Mid.refl g c).set (by simp) (by simp) rfl rfl (hck.setPc (fun _ => hck.path hcp)) ?_)
+      intro r' hr'
+      simp only [Pc.held, Pc.inflight, Option.some.injEq] at hr'
+      subst hr'; exact .inl (Pc.held_of_inflight hi)
+  · -- createRetry
+    intro rev key val r st hpc hkv hdc
+    have hi : c.pc.inflight = some rev := by rw [hpc]; rfl
+    have hcp : c.pc.createPath = true := by rw [hpc]; rfl
+    have h0 := hpos rev hi
+    have hk : key = c.kind.key := by rw [← ReqKind.kv_key, hkv]
+    rcases doCommit_pine_cases hdc with ⟨ha, _, hst⟩ | ⟨ha, hst⟩
+    · exact .inl (eff_finishCreate_applied hck hi h0 hkv hcp ha hst)
+    · subst hst
+      rw [afterCommit_idle ha]
+      exact .inr (eff_finishCreate_idle (Mid.refl g c) hck val hi h0 hk (not_ok_of_idle ha))
+  · -- createOver
+    intro rev old key val r st hpc hkv hdc
+    have hi : c.pc.inflight = some rev := by rw [hpc]; rfl
+    have hcp : c.pc.createPath = true := by rw [hpc]; rfl
+    have h0 := hpos rev hi
+    have hk : key = c.kind.key := by rw [← ReqKind.kv_key, hkv]
+    rcases doCommit_cas_cases hdc with ⟨ha, _, hst⟩ | ⟨ha, hst⟩
+    · exact .inl (eff_finishCreate_applied hck hi h0 hkv hcp ha hst)
+    · subst hst
+      rw [afterCommit_idle ha]
+      exact .inr (eff_finishCreate_idle (Mid.refl g c) hck val hi h0 hk (not_ok_of_idle ha))
+  · -- updateCommit
+    intro rev key val exp r st hpc hkind hdc
+    have hi : c.pc.inflight = some rev := by rw [hpc]; rfl
+    have h0 := hpos rev hi
+    have hk : key = c.kind.key := by rw [hkind]; rfl
+    rcases doCommit_cas_cases hdc with ⟨ha, _, hst⟩ | ⟨ha, hst⟩
+    · have hv : ∀ v, some val = some v → c.kind.wval = some v := fun v hv => by rw [hkind]; exact hv
+      have hst' : st = wstore g.store key rev (be8 rev ++ flagOf (some val)) ((some val).getD tombstone) := by
+        simp [wstore, flagOf, hst]
+      rcases applied_cases ha with rfl | rfl
+      · exact .inl ⟨_, _, _, AppliedEff.mk' ha hst' hi h0 hk hv rfl rfl (.inl rfl) rfl (.inl rfl)⟩
+      · exact .inl ⟨_, _, _, AppliedEff.mk' ha hst' hi h0 hk hv rfl rfl (.inr rfl) rfl (.inr ⟨_, rfl⟩)⟩
+    · subst hst
+      rw [afterCommit_idle ha]
+      have hne := not_ok_of_idle ha
+      cases r with
+      | ok => exact absurd rfl hne
+      | conflict i cv => exact .inr (eff_notify_set_idle hck hi h0 hk _ ⟨rfl, rfl, rfl⟩ _)
+      | _ => exact .inr (eff_notify_finish_idle hi h0 hk _ ⟨rfl, rfl, rfl⟩ (by simp))
+  · -- start / delete
+    intro key exp hpc hkind
+    have hh : c.pc.held = none := by rw [hpc]; rfl
+    split <;>
+    · refine .inr ((Mid.refl g c).set (by simp) (by simp) rfl rfl (hck.setPc (by simp [Pc.createPath])) ?_)
+      intro r hr
+      simp [Pc.held, Pc.inflight] at hr
+  · -- deleteDeal none
+    intro key exp hpc hkind
+    have hh : c.pc.held = none := by rw [hpc]; rfl
+    have hkey : key = c.kind.key := by rw [hkind]; rfl
+    refine .inr (((Mid.deal g c hh).notify _ (by simp [mkW])).finish (by simp) ?_ (by simp) (.inr ⟨hh, rfl⟩))
+    intro s hs
+    simp only [List.mem_singleton] at hs
+    subst hs
+    exact ⟨rfl, hkey, .inr ⟨hh, rfl⟩⟩
+  · -- deleteDeal some
+    intro oldVal modRev key exp hpc hkind
+    have hh : c.pc.held = none := by rw [hpc]; rfl
+    have hkey : key = c.kind.key := by rw [hkind]; rfl
+    have hsl : ∀ s ∈ [mkW (g.dealt + 1) modRev false .delete key oldVal],
+        s.valid = false ∧ s.key = c.kind.key ∧ RevI g c s.rev := by
+      intro s hs
+      simp only [List.mem_singleton] at hs
+      subst hs
+      exact ⟨rfl, hkey, .inr ⟨hh, rfl⟩⟩
+    have hm := (Mid.deal g c hh).notify (mkW (g.dealt + 1) modRev false .delete key oldVal) (by simp [mkW])
+    split
+    · exact .inr (hm.finish (by simp) hsl (by simp) (.inr ⟨hh, rfl⟩))
+    · split
+      · refine .inr (hm.set (by simp) hsl rfl rfl (hck.setPc (by simp [Pc.createPath])) ?_)
+        intro r hr
+        simp only [Pc.held, Option.some.injEq] at hr
+        exact .inr ⟨hh, hr.symm⟩
+      · split
+        · exact .inr (hm.finish (by simp) hsl (by simp) (.inr ⟨hh, rfl⟩))
+        · refine .inr ((Mid.deal g c hh).set (by simp) (by simp) rfl rfl (hck.setPc (by simp [Pc.createPath])) ?_)
+          intro r hr
+          simp only [Pc.held, Pc.inflight, Option.some.injEq] at hr
+          exact .inr ⟨hh, hr.symm⟩
+  · -- deleteCommit
+    intro rev oldVal modRev key exp r st hpc hkind hdc
+    have hi : c.pc.inflight = some rev := by rw [hpc]; rfl
+    have h0 := hpos rev hi
+    have hk : key = c.kind.key := by rw [hkind]; rfl
+    rcases doCommit_cas_cases hdc with ⟨ha, _, hst⟩ | ⟨ha, hst⟩
+    · have hv : ∀ v, (none : Option Bytes) = some v → c.kind.wval = some v := by simp
+      have hst' : st = wstore g.store key rev (be8 rev ++ flagOf none) ((none : Option Bytes).getD tombstone) := by
+        simp [wstore, flagOf, hst]
+      rcases applied_cases ha with rfl | rfl
+      · exact .inl ⟨_, _, _, AppliedEff.mk' ha hst' hi h0 hk hv rfl rfl (.inl rfl) rfl (.inl rfl)⟩
+      · exact .inl ⟨_, _, _, AppliedEff.mk' ha hst' hi h0 hk hv rfl rfl (.inr rfl) rfl (.inr ⟨_, rfl⟩)⟩
+    · subst hst
+      rw [afterCommit_idle ha]
+      have hne := not_ok_of_idle ha
+      cases r with
+      | ok => exact absurd rfl hne
+      | conflict i cv => exact .inr (eff_notify_set_idle hck hi h0 hk _ ⟨rfl, rfl, rfl⟩ _)
+      | _ => exact .inr (eff_notify_finish_idle hi h0 hk _ ⟨rfl, rfl, rfl⟩ (by simp))
+  · -- readLatest
+    intro rev fb hpc
+    have hh : RevH g c rev := .inl (by rw [hpc]; rfl)
+    split
+    · exact .inr ((Mid.refl g c).finish (by simp) (by simp) (by simp) hh)
+    · exact .inr ((Mid.refl g c).finish (by simp) (by simp) (by simp) hh)
+  · refine .inr ⟨⟨rfl, rfl, rfl, rfl⟩, rfl, rfl, ⟨[], by simp, by simp, by simp⟩, .inl rfl, fun c' hc' => ?_, .inl rfl⟩
+    by_cases e : c'.id = c.id
+    · have := hid c' hc' e
+      subst this
+      exact .inr ⟨rfl, rfl, hck, fun r hr => .inl hr⟩
+    · exact .inl ⟨hc', e⟩
+
+/-! ### case analysis of a retry step, keeping what the read returned -/
+
+theorem stepRetry_cases' {P : G → Prop} (g : G) (f : Fault)
+    (hNop : g.retryQ = [] → P g)
+    (hPop : ∀ w rest, g.retryQ = w :: rest →
+      (getInternal g.cfg g.store w.key 0 = none ∨
+        ∃ val m, getInternal g.cfg g.store w.key 0 = some (val, m) ∧ (val = [] ∨ m ≠ w.rev)) →
+      P { g with retryQ := rest })
+    (hWrite : ∀ w rest val r st, g.retryQ = w :: rest → getInternal g.cfg g.store w.key 0 = some (val, w.rev) →
+      val ≠ [] →
+      doCommit g.cfg g.store
+        [BOp.cas (idxKey w.key) (be8 (g.dealt + 1) ++ if isTomb val then [0] else []) (be8 w.rev ++ if isTomb val then [0] else []),
+         BOp.put (encode w.key (g.dealt + 1)) val] f = (r, st) →
+      P ((afterCommit { g with dealt := g.dealt + 1, retryQ := if r == CommitRes.ok || r.isCas then rest else w :: rest }
+            r st f w.key (g.dealt + 1) (if isTomb val then none else some val) (.rev w.rev)).notify
+          { w with rev := g.dealt + 1, valid := r == .ok, uncertain := r == .uncertain })) :
+    P (stepRetry g f) := by
+  unfold stepRetry
+  split
+  · exact hNop ‹_›
+  · split
+    · exact hPop _ _ ‹_› (.inl ‹_›)
+    · split
+      · rename_i w rest hq _ val modRev hget hc
+        refine hPop _ _ hq (.inr ⟨val, modRev, hget, ?_⟩)
+        simp only [Bool.or_eq_true, beq_iff_eq, bne_iff_ne, ne_eq, List.length_eq_zero_iff] at hc
+        exact hc
+      · rename_i w rest hq _ val modRev hget hc
+        simp only [Bool.or_eq_true, beq_iff_eq, bne_iff_ne, ne_eq, not_or, Decidable.not_not,
+          List.length_eq_zero_iff] at hc
+        obtain ⟨hne, rfl⟩ := hc
+        simp only []
+        generalize hdc : doCommit g.cfg g.store _ f = p
+        obtain ⟨r, st⟩ := p
+        have hL := hWrite w rest _ r st hq hget hne hdc
+        simpa only [afterCommit] using hL
+
+/-! ### acknowledged ⇒ applied, definite failure ⇒ not applied -/
+
+/-- a definite failure: condition failed or key not found -/
+def WriteRes.definite (r : WriteRes) : Prop := (∃ h kv, r = .condFailed h kv) ∨ (∃ h, r = .notFound h)
+
+structure AckInv (g : G) : Prop where
+  ck : ∀ c ∈ g.clients, CK c
+  wle : ∀ w ∈ g.wlog, w.rev ≤ g.dealt
+  held : ∀ c ∈ g.clients, ∀ r, c.pc.held = some r → ∀ w ∈ g.wlog, w.rev ≠ r
+  ok : ∀ d ∈ g.done, ∀ rev, d.res = .ok rev → ∃ w ∈ g.wlog, w.rev = rev ∧ w.key = d.kind.key
+  cf : ∀ d ∈ g.done, d.res.definite → ∀ w ∈ g.wlog, w.rev ≠ d.rev
+
+theorem AckInv.init {g : G} (h : C02.Init g) : AckInv g := by
+  obtain ⟨⟨_, _, hcl, _⟩, _, hw, hd⟩ := h
+  constructor <;> simp [hcl, hw, hd]
+
+theorem mem_client {g : G} {id : Nat} {c : Client} (h : g.client id = some c) : c ∈ g.clients ∧ c.id = id := by
+  refine ⟨List.mem_of_find?_eq_some h, ?_⟩
+  simpa using List.find?_some h
+
+theorem AckInv.stepClient {g : G} (hf : FInv g.view) (h : AckInv g) {c : Client} (hc : c ∈ g.clients) (f : Fault) :
+    AckInv (stepClient g c f) := by
+  obtain ⟨hs, hd⟩ := hf
+  have hpos : ∀ r, c.pc.inflight = some r → r ≠ 0 := by
+    intro r hr
+    have := hs.inflR c hc r hr
+    omega
+  have hid : ∀ c' ∈ g.clients, c'.id = c.id → c' = c := fun c' hc' e => hs.idU c' hc' c hc e
+  rcases stepClient_eff f (h.ck c hc) hpos hid with ⟨x, s, d, e⟩ | e
+  · have hxh : c.pc.held = some x.rev := Pc.held_of_inflight e.infl
+    constructor
+    · intro c' hc'
+      rw [e.clients] at hc'
+      exact h.ck c' (mem_others.mp hc').1
+    · intro w hw
+      rw [e.wlog] at hw
+      rw [e.dealt]
+      rcases List.mem_append.mp hw with hw | hw
+      · exact h.wle w hw
+      · simp only [List.mem_singleton] at hw
+        subst hw
+        exact (hs.inflD c hc _ e.infl).2
+    · intro c' hc' r hr w hw
+      rw [e.clients] at hc'
+      obtain ⟨hc', hne⟩ := mem_others.mp hc'
+      rw [e.wlog] at hw
+      rcases List.mem_append.mp hw with hw | hw
+      · exact h.held c' hc' r hr w hw
+      · simp only [List.mem_singleton] at hw
+        subst hw
+        intro e'
+        rw [← e'] at hr
+        exact hne (congrArg Client.id (hs.heldU c' hc' c hc _ hr hxh))
+    · intro d' hd' rev hres
+      rw [e.done] at hd'
+      rw [e.wlog]
+      rcases List.mem_append.mp hd' with hd' | hd'
+      · obtain ⟨w, hw, h1, h2⟩ := h.ok d' hd' rev hres
+        exact ⟨w, List.mem_append_left _ hw, h1, h2⟩
+      · simp only [List.mem_singleton] at hd'
+        subst hd'
+        refine ⟨x, by simp, ?_, by rw [e.xkey, e.dkind]⟩
+        rcases e.dres with h1 | ⟨er, h1⟩
+        · rw [h1] at hres; injection hres
+        · rw [h1] at hres; cases hres
+    · intro d' hd' hdef w hw
+      rw [e.done] at hd'
+      rw [e.wlog] at hw
+      rcases List.mem_append.mp hd' with hd' | hd'
+      · rcases List.mem_append.mp hw with hw | hw
+        · exact h.cf d' hd' hdef w hw
+        · simp only [List.mem_singleton] at hw
+          subst hw
+          intro e'
+          exact hd.dHeld d' hd' c hc (by rw [← e']; exact hxh)
+      · simp only [List.mem_singleton] at hd'
+        subst hd'
+        exfalso
+        rcases e.dres with h1 | ⟨er, h1⟩ <;> rcases hdef with ⟨a, b, h2⟩ | ⟨a, h2⟩ <;> rw [h1] at h2 <;> cases h2
+  · have hfresh : ∀ r, RevH g c r → ∀ w ∈ g.wlog, w.rev ≠ r := by
+      intro r hr w hw
+      rcases hr with hr | ⟨_, rfl⟩
+      · exact h.held c hc r hr w hw
+      · have := h.wle w hw; omega
+    have hdl : g.dealt ≤ (KB.stepClient g c f).dealt := by
+      rcases e.dealt with h1 | ⟨h1, _⟩ <;> omega
+    constructor
+    · intro c' hc'
+      rcases e.clients c' hc' with ⟨h1, _⟩ | ⟨_, _, h1, _⟩
+      · exact h.ck c' h1
+      · exact h1
+    · intro w hw
+      rw [e.wlog] at hw
+      exact Nat.le_trans (h.wle w hw) hdl
+    · intro c' hc' r hr w hw
+      rw [e.wlog] at hw
+      rcases e.clients c' hc' with ⟨h1, _⟩ | ⟨_, _, _, h1⟩
+      · exact h.held c' h1 r hr w hw
+      · exact hfresh r (h1 r hr) w hw
+    · intro d' hd' rev hres
+      rw [e.wlog]
+      rcases e.done with h1 | ⟨d, h1, _, h2, _⟩
+      · rw [h1] at hd'; exact h.ok d' hd' rev hres
+      · rw [h1] at hd'
+        rcases List.mem_append.mp hd' with hd' | hd'
+        · exact h.ok d' hd' rev hres
+        · simp only [List.mem_singleton] at hd'
+          subst hd'
+          exact absurd hres (h2 rev)
+    · intro d' hd' hdef w hw
+      rw [e.wlog] at hw
+      rcases e.done with h1 | ⟨d, h1, _, _, h2⟩
+      · rw [h1] at hd'; exact h.cf d' hd' hdef w hw
+      · rw [h1] at hd'
+        rcases List.mem_append.mp hd' with hd' | hd'
+        · exact h.cf d' hd' hdef w hw
+        · simp only [List.mem_singleton] at hd'
+          subst hd'
+          exact hfresh _ h2 w hw
+
+theorem AckInv.stepSeq {g : G} (h : AckInv g) : AckInv (stepSeq g) := by
+  unfold KB.stepSeq
+  split
+  · exact h
+  · exact ⟨h.ck, fun w hw => Nat.le_trans (h.wle w hw) (Nat.le_max_left _ _), h.held, h.ok, h.cf⟩
+
+theorem AckInv.stepRetry {g : G} (hf : FInv g.view) (h : AckInv g) (f : Fault) : AckInv (stepRetry g f) := by
+  obtain ⟨hs, hd⟩ := hf
+  apply stepRetry_cases'
+  · intro _; exact h
+  · intro w rest _ _; exact ⟨h.ck, h.wle, h.held, h.ok, h.cf⟩
+  · intro w rest val r st _ _ _ _
+    have hsub : ∀ x ∈ (afterCommit { g with dealt := g.dealt + 1, retryQ := if r == CommitRes.ok || r.isCas then rest else w :: rest }
+            r st f w.key (g.dealt + 1) (if isTomb val then none else some val) (.rev w.rev)).wlog,
+        x ∈ g.wlog ∨ x.rev = g.dealt + 1 := by
+      intro x hx
+      unfold afterCommit at hx
+      split at hx
+      · simp only [G.logWrite, List.mem_append, List.mem_singleton] at hx
+        rcases hx with hx | rfl
+        · exact .inl hx
+        · exact .inr rfl
+      · exact .inl hx
+    constructor
+    · intro c hc
+      simp only [G.notify_clients, afterCommit_clients] at hc
+      exact h.ck c hc
+    · intro x hx
+      simp only [G.notify_wlog] at hx
+      simp only [G.notify_dealt, afterCommit_dealt]
+      rcases hsub x hx with hx | hx
+      · have := h.wle x hx; omega
+      · omega
+    · intro c hc r hr x hx
+      simp only [G.notify_clients, afterCommit_clients] at hc
+      simp only [G.notify_wlog] at hx
+      rcases hsub x hx with hx | hx
+      · exact h.held c hc r hr x hx
+      · have := (hs.heldR c hc r hr).2
+        have : r ≤ g.dealt := this
+        omega
+    · intro d hd' rev hres
+      simp only [G.notify_done] at hd'
+      have hd'' : d ∈ g.done := by
+        unfold afterCommit at hd'; split at hd' <;> exact hd'
+      obtain ⟨x, hx, h1, h2⟩ := h.ok d hd'' rev hres
+      refine ⟨x, ?_, h1, h2⟩
+      simp only [G.notify_wlog]
+      unfold afterCommit; split
+      · exact List.mem_append_left _ hx
+      · exact hx
+    · intro d hd' hdef x hx
+      simp only [G.notify_done] at hd'
+      have hd'' : d ∈ g.done := by
+        unfold afterCommit at hd'; split at hd' <;> exact hd'
+      simp only [G.notify_wlog] at hx
+      rcases hsub x hx with hx | hx
+      · exact h.cf d hd'' hdef x hx
+      · have h1 := hd.dR d hd''
+        have : d.endDealt ≤ g.dealt := h1.2.2
+        omega
+
+theorem AckInv.act {g : G} (hf : FInv g.view) (h : AckInv g) (a : Action) : AckInv (act g a) := by
+  cases a with
+  | begin id kind =>
+    unfold KB.act; simp only []
+    split
+    · exact h
+    · have hmem : ∀ x ∈ g.clients ++ [{ id := id, kind := kind, pc := .start, beginDealt := g.dealt }],
+          x ∈ g.clients ∨ x.pc = .start := by
+        intro x hx
+        rcases List.mem_append.mp hx with hx | hx
+        · exact .inl hx
+        · simp only [List.mem_singleton] at hx; subst hx; exact .inr rfl
+      refine ⟨?_, h.wle, ?_, h.ok, h.cf⟩
+      · intro c hc
+        rcases hmem c hc with hc | hc
+        · exact h.ck c hc
+        · exact ⟨by rw [hc]; intro e; cases e⟩
+      · intro c hc r hr
+        rcases hmem c hc with hc | hc
+        · exact h.held c hc r hr
+        · rw [hc] at hr; cases hr
+  | step id f =>
+    unfold KB.act; simp only []
+    split
+    · exact h
+    · rename_i c hfind
+      exact h.stepClient hf (mem_client hfind).1 f
+  | seq => exact h.stepSeq
+  | retry f => exact h.stepRetry hf f
+
+/-- induction over reachable states, with reachability of the predecessor available -/
+theorem Reachable.induct {g0 : G} {P : G → Prop} (h0 : P g0)
+    (hstep : ∀ g a, Reachable g0 g → P g → P (act g a)) {g : G} (hr : Reachable g0 g) : P g := by
+  obtain ⟨sched, rfl⟩ := hr
+  suffices ∀ g, Reachable g0 g → P g → Reachable g0 (run g sched) ∧ P (run g sched) from
+    (this g0 ⟨[], rfl⟩ h0).2
+  induction sched with
+  | nil => intro g hr hp; exact ⟨hr, hp⟩
+  | cons a as ih => intro g hr hp; exact ih (KB.act g a) (hr.step a) (hstep g a hr hp)
+
+theorem AckInv.reachable {g0 g : G} (h0 : C02.Init g0) (hr : Reachable g0 g) : AckInv g :=
+  hr.induct (AckInv.init h0) (fun _ a hr' h => h.act (C02.finv h0 hr') a)
+
+/-! ### the point read of a key returns its last applied write -/
+
+/-- a sorted engine store all of whose keys are encodings (alphabet keys, 8-byte revisions) is the
+encoding of a sorted decoded store -/
+theorem exists_recs (store : Store) (hs : store.Sorted)
+    (hk : ∀ kv ∈ store, ∃ k r, kv.1 = encode k r ∧ Alphabet k ∧ r < 2 ^ 64) :
+    ∃ recs : List Rec, store = encodeStore recs ∧ SortedRecs recs ∧ ∀ r ∈ recs, Alphabet r.key ∧ r.rev < 2 ^ 64 := by
+  induction store with
+  | nil => exact ⟨[], rfl, List.Pairwise.nil, by simp⟩
+  | cons x rest ih =>
+    obtain ⟨hlt, hs'⟩ := Store.sorted_cons.mp hs
+    obtain ⟨recs, hst, hsr, hall⟩ := ih hs' (fun kv hkv => hk kv (List.mem_cons_of_mem _ hkv))
+    obtain ⟨k, r, hx, hka, hr⟩ := hk x (List.mem_cons_self ..)
+    refine ⟨{ key := k, rev := r, val := x.2, ik := x.1 } :: recs, ?_, ?_, ?_⟩
+    · simp only [encodeStore, List.map_cons]
+      rw [← hx]
+      congr 1
+    · refine List.Pairwise.cons ?_ hsr
+      intro q hq
+      have hm : (encode q.key q.rev, q.val) ∈ rest := by rw [hst]; exact List.mem_map.mpr ⟨q, hq, rfl⟩
+      have := hlt _ hm
+      simp only [hx] at this
+      rw [encode_cmp hka (hall q hq).1 hr (hall q hq).2] at this
+      unfold recLt
+      by_cases e : k = q.key
+      · right
+        simp only [e, if_true] at this
+        exact ⟨e, Nat.compare_eq_lt.mp this⟩
+      · left
+        simpa [e] using this
+    · intro q hq
+      rcases List.mem_cons.mp hq with rfl | hq
+      · exact ⟨hka, hr⟩
+      · exact hall q hq
+
+/-- The point read of a key returns its last applied write. -/
+theorem getInternal_last (cfg : Cfg) {store : Store} {wlog : List WLog} (hs : store.Sorted)
+    (hk : ∀ kv ∈ store, ∃ k r, kv.1 = encode k r ∧ Alphabet k ∧ r < 2 ^ 64 ∧
+      (r = 0 ∨ ∃ x ∈ wlog, x.key = k ∧ x.rev = r))
+    (hpw : ∀ k, ((wlog.filter (fun w => w.key == k)).map (·.rev)).Pairwise (· < ·))
+    {k : Bytes} (hka : Alphabet k) {w : WLog} (hl : lastW wlog k = some w) (h0 : 0 < w.rev) (hb : w.rev < 2 ^ 64)
+    {v : Bytes} (hget : store.get (encode k w.rev) = some v) :
+    getInternal cfg store k 0 = some (v, w.rev) := by
+  obtain ⟨recs, hst, hsr, hall⟩ := exists_recs store hs (fun kv hkv => by
+    obtain ⟨k, r, h1, h2, h3, _⟩ := hk kv hkv
+    exact ⟨k, r, h1, h2, h3⟩)
+  rw [hst, C03.get_spec cfg hsr hall k hka 0 (by decide)]
+  simp only [beq_self_eq_true, if_true]
+  -- the record of the last write
+  have hm : (encode k w.rev, v) ∈ encodeStore recs := by rw [← hst]; exact Store.mem_of_get hget
+  obtain ⟨rs, hrs, e⟩ := List.mem_map.mp hm
+  simp only [Prod.mk.injEq] at e
+  obtain ⟨e1, e2⟩ := encode_inj (hall rs hrs).2 hb e.1
+  have hvis : vis (2 ^ 64 - 1) k rs = true := vis_iff.mpr ⟨e1, by omega, by omega⟩
+  have hmf : rs ∈ recs.filter (vis (2 ^ 64 - 1) k) := List.mem_filter.mpr ⟨hrs, hvis⟩
+  rw [visible_def]
+  cases hlast : (recs.filter (vis (2 ^ 64 - 1) k)).getLast? with
+  | none =>
+    rw [List.getLast?_eq_none_iff] at hlast
+    rw [hlast] at hmf; cases hmf
+  | some l =>
+    have hlm := List.mem_filter.mp (List.mem_of_getLast? hlast)
+    obtain ⟨hlk, hl0, _⟩ := vis_iff.mp hlm.2
+    -- `l` is a logged write of `k`, hence not newer than `w`
+    have hle : l.rev ≤ w.rev := by
+      have hm' : (encode l.key l.rev, l.val) ∈ store := by rw [hst]; exact List.mem_map.mpr ⟨l, hlm.1, rfl⟩
+      obtain ⟨k', r', h1, _, h3, h4⟩ := hk _ hm'
+      obtain ⟨e3, e4⟩ := encode_inj (hall l hlm.1).2 h3 h1
+      rcases h4 with h4 | ⟨x, hx, hxk, hxr⟩
+      · omega
+      · have hxm : x ∈ wlog.filter (fun w => w.key == k) :=
+          List.mem_filter.mpr ⟨hx, by simp [hxk, ← e3, hlk]⟩
+        have := pairwise_le_last (hpw k) hl hxm
+        omega
+    have : rs = l := by
+      rcases pairwise_getLast (List.Pairwise.filter _ hsr) hlast hmf with h | h
+      · exact h
+      · exfalso
+        rcases h with h | ⟨_, h⟩
+        · rw [e1, hlk] at h; simp at h
+        · omega
+    subst this
+    simp [e2, e.2]
+
+
+/-! ### the convergence invariant -/
+
+/-- the last applied write `w` of a key is accounted for: already emitted, or in a filled slot that the
+sequencer will emit or queue, or in the retry queue -/
+def Covered (em : List Event) (sl rq : List WEvent) (w : WLog) : Prop :=
+  (∃ e ∈ em, e.rev = w.rev ∧ e.key = w.key ∧ (e.verb == .delete) = w.val.isNone) ∨
+  (∃ s ∈ sl, s.rev = w.rev ∧ (s.valid = true ∨ s.uncertain = true)) ∨
+  (∃ q ∈ rq, q.rev = w.rev)
+
+theorem Covered.mono {em em' : List Event} {sl sl' rq rq' : List WEvent} {w : WLog} (h : Covered em sl rq w)
+    (h1 : ∀ e ∈ em, e ∈ em') (h2 : ∀ s ∈ sl, s ∈ sl') (h3 : ∀ q ∈ rq, q ∈ rq') : Covered em' sl' rq' w := by
+  rcases h with ⟨e, he, h⟩ | ⟨s, hs, h⟩ | ⟨q, hq, h⟩
+  · exact .inl ⟨e, h1 e he, h⟩
+  · exact .inr (.inl ⟨s, h2 s hs, h⟩)
+  · exact .inr (.inr ⟨q, h3 q hq, h⟩)
+
+def StoreKeys (store : Store) (wlog : List WLog) : Prop :=
+  ∀ kv ∈ store, ∃ k r, kv.1 = encode k r ∧ Alphabet k ∧ r < 2 ^ 64 ∧ (r = 0 ∨ ∃ x ∈ wlog, x.key = k ∧ x.rev = r)
+
+theorem StoreKeys.write {store : Store} {wlog : List WLog} (h : StoreKeys store wlog) (x : WLog) (new v : Bytes)
+    (ha : Alphabet x.key) (hr : x.rev < 2 ^ 64) : StoreKeys (wstore store x.key x.rev new v) (wlog ++ [x]) := by
+  intro kv hkv
+  rcases Store.mem_put hkv with h1 | h1
+  · exact ⟨x.key, x.rev, h1, ha, hr, .inr ⟨x, by simp, rfl, rfl⟩⟩
+  · rcases Store.mem_put h1 with h2 | h2
+    · exact ⟨x.key, 0, h2, ha, by decide, .inl rfl⟩
+    · obtain ⟨k, r, a, b, c, d⟩ := h kv h2
+      refine ⟨k, r, a, b, c, ?_⟩
+      rcases d with d | ⟨y, hy, d⟩
+      · exact .inl d
+      · exact .inr ⟨y, List.mem_append_left _ hy, d⟩
+
+theorem sorted_wstore {store : Store} (h : store.Sorted) (key : Bytes) (rev : Nat) (new v : Bytes) :
+    (wstore store key rev new v).Sorted :=
+  KB.Store.put_sorted _ (KB.Store.put_sorted _ h _ _) _ _
+
+structure Cv (g : G) : Prop where
+  kok : ∀ c ∈ g.clients, KOK c.kind
+  salph : ∀ s ∈ g.slots, Alphabet s.key
+  qalph : ∀ q ∈ g.retryQ, Alphabet q.key
+  wval : ∀ x ∈ g.wlog, ∀ v, x.val = some v → ValOK v
+  sorted : g.store.Sorted
+  skeys : StoreKeys g.store g.wlog
+  sv : ∀ s ∈ g.slots, ∀ x ∈ g.wlog, x.rev = s.rev → x.key = s.key ∧ VerbOK s x
+  qv : ∀ q ∈ g.retryQ, ∀ x ∈ g.wlog, x.rev = q.rev → x.key = q.key ∧ VerbOK q x
+  svalid : ∀ s ∈ g.slots, s.valid = true → ∃ x ∈ g.wlog, x.rev = s.rev
+  suniq : ∀ s1 ∈ g.slots, ∀ s2 ∈ g.slots, s1.rev = s2.rev → s1 = s2
+  qle : ∀ q ∈ g.retryQ, q.rev ≤ g.committed
+  em : ∀ e ∈ g.emitted, e.rev ≤ g.committed ∧
+    ∃ x ∈ g.wlog, x.rev = e.rev ∧ x.key = e.key ∧ (e.verb == .delete) = x.val.isNone
+  emsorted : (g.emitted.map (·.rev)).Pairwise (· < ·)
+  cover : ∀ k w, lastW g.wlog k = some w → Covered g.emitted g.slots g.retryQ w
+
+/-- what is known of every reachable state (from the empty store) -/
+structure Ctx (g0 g : G) : Prop where
+  finv : FInv g.view
+  sinv : SysStore.SInv g0 g
+  ack : AckInv g
+  st0 : g0.store = []
+
+theorem G0OK.of_empty {g0 : G} (hs : g0.store = []) : G0OK g0 := by
+  constructor
+  · intro kv hkv; rw [hs] at hkv; cases hkv
+  · intro k v m t hget; rw [hs] at hget; simp [Store.get] at hget
+
+theorem Ctx.reachable {g0 g : G} (h0 : C02.Init g0) (hs : g0.store = []) (hr : Reachable g0 g) : Ctx g0 g := by
+  refine ⟨C02.finv h0 hr, ?_, AckInv.reachable h0 hr, hs⟩
+  obtain ⟨sched, rfl⟩ := hr
+  exact (SysStore.SInv.init h0 (G0OK.of_empty hs)).run (G0OK.of_empty hs) sched
+
+theorem Cv.init {g : G} (h : C02.Init g) (hs : g.store = []) (hem : g.emitted = []) : Cv g := by
+  obtain ⟨⟨_, hsl, hcl, hq⟩, _, hw, _⟩ := h
+  constructor <;> simp [hcl, hsl, hq, hw, hs, hem, Store.Sorted, StoreKeys, lastW]
+
+theorem Cv.stepSeq {g : G} (h : Cv g) : Cv (stepSeq g) := by
+  unfold KB.stepSeq
+  split
+  · exact h
+  · rename_i s hfind
+    have hsm : s ∈ g.slots := List.mem_of_find?_eq_some hfind
+    have hsr : s.rev = g.committed + 1 := by simpa using List.find?_some hfind
+    have hfil : ∀ x, x ∈ g.slots.filter (fun x => x.rev != s.rev) ↔ x ∈ g.slots ∧ x.rev ≠ s.rev := by
+      simp [List.mem_filter]
+    have hrq : ∀ q ∈ (if (!s.valid && s.uncertain) = true then g.retryQ ++ [s] else g.retryQ),
+        q ∈ g.retryQ ∨ (q = s ∧ s.valid = false ∧ s.uncertain = true) := by
+      intro q hq
+      split at hq
+      · rename_i hc
+        simp only [Bool.and_eq_true, Bool.not_eq_true'] at hc
+        rcases List.mem_append.mp hq with hq | hq
+        · exact .inl hq
+        · exact .inr ⟨by simpa using hq, hc.1, hc.2⟩
+      · exact .inl hq
+    have hem : ∀ e ∈ (if s.valid = true then g.emitted ++ [mkEvent s] else g.emitted),
+        e ∈ g.emitted ∨ (e = mkEvent s ∧ s.valid = true) := by
+      intro e he
+      split at he
+      · rcases List.mem_append.mp he with he | he
+        · exact .inl he
+        · exact .inr ⟨by simpa using he, ‹_›⟩
+      · exact .inl he
+    constructor
+    · exact h.kok
+    · intro x hx; exact h.salph x ((hfil x).mp hx).1
+    · intro q hq
+      rcases hrq q hq with hq | ⟨rfl, _⟩
+      · exact h.qalph q hq
+      · exact h.salph q hsm
+    · exact h.wval
+    · exact h.sorted
+    · exact h.skeys
+    · intro x hx; exact h.sv x ((hfil x).mp hx).1
+    · intro q hq
+      rcases hrq q hq with hq | ⟨rfl, _⟩
+      · exact h.qv q hq
+      · exact h.sv q hsm
+    · intro x hx; exact h.svalid x ((hfil x).mp hx).1
+    · intro x hx y hy; exact h.suniq x ((hfil x).mp hx).1 y ((hfil y).mp hy).1
+    · intro q hq
+      show q.rev ≤ s.rev
+      rcases hrq q hq with hq | ⟨rfl, _⟩
+      · have := h.qle q hq; omega
+      · exact Nat.le_refl _
+    · intro e he
+      show e.rev ≤ s.rev ∧ _
+      rcases hem e he with he | ⟨rfl, hv⟩
+      · obtain ⟨h1, h2⟩ := h.em e he
+        exact ⟨by omega, h2⟩
+      · obtain ⟨x, hx, hxr⟩ := h.svalid s hsm hv
+        obtain ⟨hk, hvb⟩ := h.sv s hsm x hx hxr
+        exact ⟨Nat.le_refl _, x, hx, hxr, hk, hvb⟩
+    · show (List.map (·.rev) (if s.valid = true then g.emitted ++ [mkEvent s] else g.emitted)).Pairwise (· < ·)
+      split
+      · rw [List.map_append, List.pairwise_append]
+        refine ⟨h.emsorted, by simp, ?_⟩
+        intro a ha b hb
+        obtain ⟨e, he, rfl⟩ := List.mem_map.mp ha
+        simp only [List.map_cons, List.map_nil, List.mem_singleton] at hb
+        subst hb
+        have := (h.em e he).1
+        show e.rev < s.rev
+        omega
+      · exact h.emsorted
+    · intro k w hl
+      show Covered (if s.valid = true then g.emitted ++ [mkEvent s] else g.emitted)
+        (g.slots.filter (fun x => x.rev != s.rev))
+        (if (!s.valid && s.uncertain) = true then g.retryQ ++ [s] else g.retryQ) w
+      have hsubE : ∀ e ∈ g.emitted, e ∈ (if s.valid = true then g.emitted ++ [mkEvent s] else g.emitted) := by
+        intro e he; split
+        · exact List.mem_append_left _ he
+        · exact he
+      have hsubQ : ∀ q ∈ g.retryQ, q ∈ (if (!s.valid && s.uncertain) = true then g.retryQ ++ [s] else g.retryQ) := by
+        intro q hq; split
+        · exact List.mem_append_left _ hq
+        · exact hq
+      rcases h.cover k w hl with ⟨e, he, hh⟩ | ⟨s', hs', hr', hfl⟩ | ⟨q, hq, hh⟩
+      · exact .inl ⟨e, hsubE e he, hh⟩
+      · by_cases e : s'.rev = s.rev
+        · have := h.suniq s' hs' s hsm e
+          subst this
+          by_cases hv : s'.valid = true
+          · left
+            obtain ⟨hk, hvb⟩ := h.sv s' hsm w (lastW_some hl).1 hr'.symm
+            refine ⟨mkEvent s', by simp [hv], hr', hk.symm, hvb⟩
+          · right; right
+            have hu : s'.uncertain = true := by
+              rcases hfl with hfl | hfl
+              · exact absurd hfl hv
+              · exact hfl
+            have hv' : s'.valid = false := by simpa using hv
+            exact ⟨s', by simp [hv', hu], hr'⟩
+        · exact .inr (.inl ⟨s', (hfil s').mpr ⟨hs', e⟩, hr', hfl⟩)
+      · exact .inr (.inr ⟨q, hsubQ q hq, hh⟩)
+
+theorem lastW_mem_ne {l : List WLog} {x : WLog} {k : Bytes} {w : WLog} (h : lastW (l ++ [x]) k = some w)
+    (hne : x.key ≠ k) : lastW l k = some w := by
+  rw [lastW_append, if_neg hne] at h; exact h
+
+theorem Cv.stepClient {g0 g : G} (ctx : Ctx g0 g) (h : Cv g) {c : Client} (hc : c ∈ g.clients) (f : Fault)
+    (hb : (stepClient g c f).dealt < 2 ^ 64) : Cv (stepClient g c f) := by
+  obtain ⟨hs, hd⟩ := ctx.finv
+  have hA := ctx.ack
+  have hcore := ctx.sinv.core
+  have hpos : ∀ r, c.pc.inflight = some r → r ≠ 0 := by
+    intro r hr
+    have := hs.inflR c hc r hr
+    omega
+  have hid : ∀ c' ∈ g.clients, c'.id = c.id → c' = c := fun c' hc' e => hs.idU c' hc' c hc e
+  -- a revision the step may report is fresh: neither logged, nor in a slot
+  have hfreshW : ∀ r, RevI g c r → ∀ x ∈ g.wlog, x.rev ≠ r := by
+    intro r hr x hx
+    rcases hr with hr | ⟨_, rfl⟩
+    · exact hA.held c hc r (Pc.held_of_inflight hr) x hx
+    · have := hA.wle x hx; omega
+  have hfreshS : ∀ r, RevI g c r → ∀ s ∈ g.slots, s.rev ≠ r := by
+    intro r hr s hsm e
+    rcases hr with hr | ⟨_, rfl⟩
+    · exact hs.slotInfl s hsm c hc (e ▸ hr)
+    · have := (hs.slotR s hsm).2
+      have : s.rev ≤ g.dealt := this
+      omega
+  have hkok := h.kok c hc
+  rcases stepClient_eff f (hA.ck c hc) hpos hid with ⟨x, s, d, e⟩ | e
+  · -- a batch was applied
+    have hri : RevI g c x.rev := .inl e.infl
+    have hxle : x.rev < 2 ^ 64 := by
+      have := (hs.inflD c hc _ e.infl).2
+      have h2 : x.rev ≤ g.dealt := this
+      rw [e.dealt] at hb
+      omega
+    have hxa : Alphabet x.key := by rw [e.xkey]; exact hkok.alph
+    have hcm : g.committed < x.rev := hs.inflR c hc _ e.infl
+    constructor
+    · intro c' hc'
+      rw [e.clients] at hc'
+      exact h.kok c' (mem_others.mp hc').1
+    · intro s' hs'
+      rw [e.slots] at hs'
+      rcases List.mem_append.mp hs' with hs' | hs'
+      · exact h.salph s' hs'
+      · simp only [List.mem_singleton] at hs'; subst hs'; rw [e.skey]; exact hxa
+    · rw [e.frame.retryQ]; exact h.qalph
+    · intro y hy v hv
+      rw [e.wlog] at hy
+      rcases List.mem_append.mp hy with hy | hy
+      · exact h.wval y hy v hv
+      · simp only [List.mem_singleton] at hy; subst hy
+        exact hkok.val v (e.xval v hv)
+    · rw [e.store]; exact sorted_wstore h.sorted ..
+    · rw [e.store, e.wlog]; exact h.skeys.write x _ _ hxa hxle
+    · intro s' hs' y hy hyr
+      rw [e.slots] at hs'
+      rw [e.wlog] at hy
+      rcases List.mem_append.mp hs' with hs' | hs'
+      · rcases List.mem_append.mp hy with hy | hy
+        · exact h.sv s' hs' y hy hyr
+        · simp only [List.mem_singleton] at hy; subst hy
+          exact absurd hyr.symm (hfreshS _ hri s' hs')
+      · simp only [List.mem_singleton] at hs'; subst hs'
+        rcases List.mem_append.mp hy with hy | hy
+        · exact absurd (hyr.trans e.srev) (hfreshW _ hri y hy)
+        · simp only [List.mem_singleton] at hy; subst hy
+          exact ⟨e.skey.symm, e.verb⟩
+    · intro q hq y hy hyr
+      rw [e.frame.retryQ] at hq
+      rw [e.wlog] at hy
+      rcases List.mem_append.mp hy with hy | hy
+      · exact h.qv q hq y hy hyr
+      · simp only [List.mem_singleton] at hy; subst hy
+        have := h.qle q hq
+        omega
+    · intro s' hs' hv
+      rw [e.slots] at hs'
+      rw [e.wlog]
+      rcases List.mem_append.mp hs' with hs' | hs'
+      · obtain ⟨y, hy, hyr⟩ := h.svalid s' hs' hv
+        exact ⟨y, List.mem_append_left _ hy, hyr⟩
+      · simp only [List.mem_singleton] at hs'; subst hs'
+        exact ⟨x, by simp, e.srev.symm⟩
+    · intro s1 h1 s2 h2 e12
+      rw [e.slots] at h1 h2
+      rcases List.mem_append.mp h1 with h1' | h1' <;> rcases List.mem_append.mp h2 with h2' | h2'
+      · exact h.suniq s1 h1' s2 h2' e12
+      · simp only [List.mem_singleton] at h2'
+        exact absurd (e12.trans (h2' ▸ e.srev)) (hfreshS _ hri s1 h1')
+      · simp only [List.mem_singleton] at h1'
+        exact absurd (e12.symm.trans (h1' ▸ e.srev)) (hfreshS _ hri s2 h2')
+      · simp only [List.mem_singleton] at h1' h2'; rw [h1', h2']
+    · rw [e.frame.retryQ, e.frame.committed]; exact h.qle
+    · intro ev hev
+      rw [e.frame.emitted] at hev
+      rw [e.frame.committed, e.wlog]
+      obtain ⟨h1, y, hy, h2⟩ := h.em ev hev
+      exact ⟨h1, y, List.mem_append_left _ hy, h2⟩
+    · rw [e.frame.emitted]; exact h.emsorted
+    · intro k w hl
+      rw [e.frame.emitted, e.slots, e.frame.retryQ]
+      rw [e.wlog, lastW_append] at hl
+      split at hl
+      · simp only [Option.some.injEq] at hl; subst hl
+        exact .inr (.inl ⟨s, by simp, e.srev, e.sflag⟩)
+      · exact (h.cover k w hl).mono (fun _ h => h) (fun _ h => List.mem_append_left _ h) (fun _ h => h)
+  · -- nothing applied
+    obtain ⟨sl, hsl, hlen, hprop⟩ := e.slots
+    have hcm : g.committed = (KB.stepClient g c f).committed := e.frame.committed.symm
+    constructor
+    · intro c' hc'
+      rcases e.clients c' hc' with ⟨h1, _⟩ | ⟨_, h1, _, _⟩
+      · exact h.kok c' h1
+      · rw [h1]; exact hkok
+    · intro s' hs'
+      rw [hsl] at hs'
+      rcases List.mem_append.mp hs' with hs' | hs'
+      · exact h.salph s' hs'
+      · rw [(hprop s' hs').2.1]; exact hkok.alph
+    · rw [e.frame.retryQ]; exact h.qalph
+    · rw [e.wlog]; exact h.wval
+    · rw [e.store]; exact h.sorted
+    · rw [e.store, e.wlog]; exact h.skeys
+    · intro s' hs' y hy hyr
+      rw [hsl] at hs'
+      rw [e.wlog] at hy
+      rcases List.mem_append.mp hs' with hs' | hs'
+      · exact h.sv s' hs' y hy hyr
+      · exact absurd hyr (hfreshW _ (hprop s' hs').2.2 y hy)
+    · rw [e.frame.retryQ, e.wlog]; exact h.qv
+    · intro s' hs' hv
+      rw [hsl] at hs'
+      rw [e.wlog]
+      rcases List.mem_append.mp hs' with hs' | hs'
+      · exact h.svalid s' hs' hv
+      · rw [(hprop s' hs').1] at hv; cases hv
+    · intro s1 h1 s2 h2 e12
+      rw [hsl] at h1 h2
+      rcases List.mem_append.mp h1 with h1 | h1 <;> rcases List.mem_append.mp h2 with h2 | h2
+      · exact h.suniq s1 h1 s2 h2 e12
+      · exact absurd e12 (hfreshS _ (hprop s2 h2).2.2 s1 h1)
+      · exact absurd e12.symm (hfreshS _ (hprop s1 h1).2.2 s2 h2)
+      · match sl, hlen, h1, h2 with
+        | [a], _, h1, h2 =>
+          simp only [List.mem_singleton] at h1 h2; rw [h1, h2]
+    · rw [e.frame.retryQ, e.frame.committed]; exact h.qle
+    · rw [e.frame.emitted, e.frame.committed, e.wlog]; exact h.em
+    · rw [e.frame.emitted]; exact h.emsorted
+    · intro k w hl
+      rw [e.frame.emitted, hsl, e.frame.retryQ]
+      rw [e.wlog] at hl
+      exact (h.cover k w hl).mono (fun _ h => h) (fun _ h => List.mem_append_left _ h) (fun _ h => h)
+
+theorem tombstone_ne_nil : tombstone ≠ [] := by decide
+
+theorem isTomb_getD {o : Option Bytes} (h : ∀ v, o = some v → ValOK v) :
+    isTomb (o.getD tombstone) = o.isNone ∧ o.getD tombstone ≠ [] := by
+  cases o with
+  | none => exact ⟨by simp [isTomb], tombstone_ne_nil⟩
+  | some v =>
+    obtain ⟨h1, h2⟩ := h v rfl
+    exact ⟨by simp [isTomb, h2], h1⟩
+
+/-- in a reachable state the point read of a key returns its last applied write -/
+theorem read_last {g0 g : G} (ctx : Ctx g0 g) (h : Cv g) (hb : g.dealt < 2 ^ 64) {k : Bytes} (hka : Alphabet k)
+    {w : WLog} (hl : lastW g.wlog k = some w) :
+    getInternal g.cfg g.store k 0 = some (w.val.getD tombstone, w.rev) ∧
+      g.store.get (idxKey k) = some (be8 w.rev ++ flagOf w.val) := by
+  have hcore := ctx.sinv.core
+  have hi := hcore.idx hb k
+  rw [hl] at hi
+  simp only [IdxOK] at hi
+  have hr := hcore.revs w (lastW_some hl).1
+  refine ⟨?_, hi.1⟩
+  exact getInternal_last g.cfg h.sorted h.skeys (fun k => chain_pairwise (hcore.chain hb) k) hka hl
+    (by omega) (by omega) hi.2
+
+theorem flag_eq_iff {b : Bool} {o : Option Bytes} (h : (if b = true then ([0] : Bytes) else []) = flagOf o) :
+    b = o.isNone := by
+  cases b <;> cases o <;> simp [flagOf] at h ⊢
+
+theorem flag_of_eq {b : Bool} {o : Option Bytes} (h : b = o.isNone) :
+    (if b = true then ([0] : Bytes) else []) = flagOf o := by
+  subst h; cases o <;> rfl
+
+/-- a commit whose condition holds never answers "conflict" -/
+theorem doCommit_ok_not_conflict {c : Cfg} {st st' : Store} {ops : List BOp} {f : Fault}
+    (h : commit c.q st ops = .ok st') (i : Option Nat) (cv : Option Bytes) : (doCommit c st ops f).1 ≠ .conflict i cv := by
+  unfold doCommit
+  rw [h]
+  cases f <;> simp
+
+/-- projections of the state after the retry loop's rewrite -/
+theorem retry_write_proj (g : G) (q : WEvent) (Q : List WEvent) (r : CommitRes) (st : Store) (f : Fault) (val : Option Bytes) :
+    let x : WLog := ⟨q.key, g.dealt + 1, val, .rev q.rev⟩
+    let s : WEvent := { q with rev := g.dealt + 1, valid := r == .ok, uncertain := r == .uncertain }
+    let g' := (afterCommit { g with dealt := g.dealt + 1, retryQ := Q } r st f q.key (g.dealt + 1) val (.rev q.rev)).notify s
+    g'.slots = g.slots ++ [s] ∧ g'.retryQ = Q ∧ g'.emitted = g.emitted ∧ g'.committed = g.committed ∧
+      g'.clients = g.clients ∧ g'.dealt = g.dealt + 1 ∧ g'.store = st ∧ g'.cfg = g.cfg ∧
+      g'.wlog = (if applied r f = true then g.wlog ++ [x] else g.wlog) := by
+  simp only [G.notify, afterCommit, Nat.succ_ne_zero, beq_iff_eq, if_false]
+  split <;> simp [G.logWrite]
+
+
+theorem Cv.stepRetry {g0 g : G} (ctx : Ctx g0 g) (h : Cv g) (f : Fault)
+    (hb' : (stepRetry g f).dealt < 2 ^ 64) : Cv (stepRetry g f) := by
+  obtain ⟨hs, hd⟩ := ctx.finv
+  have hA := ctx.ack
+  have hcore := ctx.sinv.core
+  revert hb'
+  apply stepRetry_cases' (P := fun g' => g'.dealt < 2 ^ 64 → Cv g')
+  · intro _ _; exact h
+  · -- the head is dropped: it is not the last write of its key
+    intro q rest hq hpop hb
+    have hsub : ∀ x ∈ rest, x ∈ g.retryQ := fun x hx => by rw [hq]; exact List.mem_cons_of_mem _ hx
+    have hqm : q ∈ g.retryQ := by rw [hq]; exact List.mem_cons_self ..
+    refine ⟨h.kok, h.salph, fun x hx => h.qalph x (hsub x hx), h.wval, h.sorted, h.skeys, h.sv,
+      fun x hx => h.qv x (hsub x hx), h.svalid, h.suniq, fun x hx => h.qle x (hsub x hx), h.em, h.emsorted, ?_⟩
+    intro k w hl
+    show Covered g.emitted g.slots rest w
+    rcases h.cover k w hl with hc | hc | ⟨q', hq', hr'⟩
+    · exact .inl hc
+    · exact .inr (.inl hc)
+    · rw [hq] at hq'
+      rcases List.mem_cons.mp hq' with rfl | hq'
+      · exfalso
+        obtain ⟨hk, _⟩ := h.qv q' hqm w (lastW_some hl).1 hr'.symm
+        have hkk : k = q'.key := (lastW_some hl).2.symm.trans hk
+        subst hkk
+        obtain ⟨hget, _⟩ := read_last ctx h hb (h.qalph q' hqm) hl
+        have hne := (isTomb_getD (h.wval w (lastW_some hl).1)).2
+        rcases hpop with hp | ⟨val, m, hp, hp'⟩
+        · rw [hp] at hget; cases hget
+        · rw [hp] at hget
+          simp only [Option.some.injEq, Prod.mk.injEq] at hget
+          rcases hp' with hp' | hp'
+          · exact hne (hget.1 ▸ hp')
+          · exact hp' (hget.2.trans hr'.symm)
+      · exact .inr (.inr ⟨q', hq', hr'⟩)
+  · -- the rewrite
+    intro q rest val r st hq hget hne hdc hb'
+    have hqm : q ∈ g.retryQ := by rw [hq]; exact List.mem_cons_self ..
+    obtain ⟨pS, pQ, pE, pC, pCl, pD, pSt, pCfg, pW⟩ := retry_write_proj g q
+      (if r == CommitRes.ok || r.isCas then rest else q :: rest) r st f (if isTomb val then none else some val)
+    generalize hg' : G.notify _ _ = g' at pS pQ pE pC pCl pD pSt pCfg pW hb' ⊢
+    have hb : g.dealt < 2 ^ 64 := by rw [pD] at hb'; omega
+    have hQsub : ∀ x ∈ (if r == CommitRes.ok || r.isCas then rest else q :: rest), x ∈ g.retryQ := by
+      intro x hx
+      rw [hq]
+      split at hx
+      · exact List.mem_cons_of_mem _ hx
+      · exact hx
+    have hqa := h.qalph q hqm
+    have hqc : q.rev ≤ g.dealt := Nat.le_trans (h.qle q hqm) hs.le
+    have hslot : ∀ s ∈ g.slots, s.rev ≤ g.dealt := fun s hsm => (hs.slotR s hsm).2
+    have hsuniq : ∀ s1 ∈ g.slots ++ [{ q with rev := g.dealt + 1, valid := r == .ok, uncertain := r == .uncertain }],
+        ∀ s2 ∈ g.slots ++ [{ q with rev := g.dealt + 1, valid := r == .ok, uncertain := r == .uncertain }],
+        s1.rev = s2.rev → s1 = s2 := by
+      intro s1 h1 s2 h2 e12
+      rcases List.mem_append.mp h1 with h1' | h1' <;> rcases List.mem_append.mp h2 with h2' | h2'
+      · exact h.suniq s1 h1' s2 h2' e12
+      · simp only [List.mem_singleton] at h2'
+        have := hslot s1 h1'; rw [h2'] at e12; simp only at e12; omega
+      · simp only [List.mem_singleton] at h1'
+        have := hslot s2 h2'; rw [h1'] at e12; simp only at e12; omega
+      · simp only [List.mem_singleton] at h1' h2'; rw [h1', h2']
+    rcases doCommit_cas_cases hdc with ⟨ha, hidx, hst⟩ | ⟨ha, hst⟩
+    · -- applied: the key's last write is now the rewrite, covered by its own slot
+      rw [if_pos ha] at pW
+      -- the CAS succeeded, so the head was the last write of its key
+      obtain ⟨w, hl, hwr, hfl⟩ : ∃ w, lastW g.wlog q.key = some w ∧ w.rev = q.rev ∧
+          isTomb val = w.val.isNone := by
+        have hi := hcore.idx hb q.key
+        cases hl : lastW g.wlog q.key with
+        | none =>
+          rw [hl] at hi; simp only [IdxOK] at hi
+          rw [hidx, ctx.st0] at hi; simp [Store.get] at hi
+        | some w =>
+          rw [hl] at hi; simp only [IdxOK] at hi
+          have hwle := (hcore.revs w (lastW_some hl).1).2
+          have := hi.1; rw [hidx] at this
+          obtain ⟨e1, e2⟩ := be8_append_inj (by omega) (by omega) (Option.some.inj this)
+          exact ⟨w, rfl, e1.symm, flag_eq_iff e2⟩
+      have hverb : VerbOK q w := (h.qv q hqm w (lastW_some hl).1 hwr).2
+      have hxv : (q.verb == Verb.delete) = (if isTomb val = true then none else some val : Option Bytes).isNone := by
+        rw [hverb, ← hfl]
+        cases isTomb val <;> rfl
+      have hrr := applied_cases ha
+      have hst' : st = wstore g.store q.key (g.dealt + 1)
+          (be8 (g.dealt + 1) ++ if isTomb val then [0] else []) val := by rw [hst]; rfl
+      constructor
+      · rw [pCl]; exact h.kok
+      · intro s hsm
+        rw [pS] at hsm
+        rcases List.mem_append.mp hsm with hsm | hsm
+        · exact h.salph s hsm
+        · simp only [List.mem_singleton] at hsm; rw [hsm]; exact hqa
+      · rw [pQ]; intro x hx; exact h.qalph x (hQsub x hx)
+      · intro y hy v hv
+        rw [pW] at hy
+        rcases List.mem_append.mp hy with hy | hy
+        · exact h.wval y hy v hv
+        · simp only [List.mem_singleton] at hy; subst hy
+          simp only at hv
+          split at hv
+          · cases hv
+          · rename_i ht
+            simp only [Option.some.injEq] at hv; subst hv
+            exact ⟨hne, by simpa [isTomb] using ht⟩
+      · rw [pSt, hst']; exact sorted_wstore h.sorted ..
+      · rw [pSt, pW, hst']
+        exact h.skeys.write ⟨q.key, g.dealt + 1, _, _⟩ _ _ hqa (by show g.dealt + 1 < 2 ^ 64; omega)
+      · intro s hsm y hy hyr
+        rw [pS] at hsm
+        rw [pW] at hy
+        rcases List.mem_append.mp hsm with hsm | hsm
+        · rcases List.mem_append.mp hy with hy | hy
+          · exact h.sv s hsm y hy hyr
+          · simp only [List.mem_singleton] at hy; subst hy
+            have := hslot s hsm; simp only at hyr; omega
+        · simp only [List.mem_singleton] at hsm; subst hsm
+          rcases List.mem_append.mp hy with hy | hy
+          · have := hA.wle y hy; simp only at hyr; omega
+          · simp only [List.mem_singleton] at hy; subst hy
+            exact ⟨rfl, hxv⟩
+      · intro q' hq' y hy hyr
+        rw [pQ] at hq'
+        rw [pW] at hy
+        have hq'' := hQsub q' hq'
+        rcases List.mem_append.mp hy with hy | hy
+        · exact h.qv q' hq'' y hy hyr
+        · simp only [List.mem_singleton] at hy; subst hy
+          have := Nat.le_trans (h.qle q' hq'') hs.le
+          have : q'.rev ≤ g.dealt := this
+          simp only at hyr; omega
+      · intro s hsm hv
+        rw [pS] at hsm
+        rw [pW]
+        rcases List.mem_append.mp hsm with hsm | hsm
+        · obtain ⟨y, hy, hyr⟩ := h.svalid s hsm hv
+          exact ⟨y, List.mem_append_left _ hy, hyr⟩
+        · simp only [List.mem_singleton] at hsm; subst hsm
+          exact ⟨_, List.mem_append_right _ (List.mem_singleton_self _), rfl⟩
+      · rw [pS]; exact hsuniq
+      · rw [pQ, pC]; intro x hx; exact h.qle x (hQsub x hx)
+      · intro ev hev
+        rw [pE] at hev
+        rw [pC, pW]
+        obtain ⟨h1, y, hy, h2⟩ := h.em ev hev
+        exact ⟨h1, y, List.mem_append_left _ hy, h2⟩
+      · rw [pE]; exact h.emsorted
+      · intro k w0 hl0
+        rw [pE, pS, pQ]
+        rw [pW, lastW_append] at hl0
+        by_cases hkk : q.key = k
+        · rw [if_pos hkk] at hl0
+          simp only [Option.some.injEq] at hl0; subst hl0
+          refine .inr (.inl ⟨_, List.mem_append_right _ (List.mem_singleton_self _), rfl, ?_⟩)
+          rcases hrr with rfl | rfl
+          · exact .inl rfl
+          · exact .inr rfl
+        · rw [if_neg hkk] at hl0
+          have hkne := hkk
+          rcases h.cover k w0 hl0 with hc | ⟨s, hsm, hc⟩ | ⟨q', hq', hr'⟩
+          · exact .inl hc
+          · exact .inr (.inl ⟨s, List.mem_append_left _ hsm, hc⟩)
+          · refine .inr (.inr ⟨q', ?_, hr'⟩)
+            rw [hq] at hq'
+            rcases List.mem_cons.mp hq' with rfl | hq'
+            · exfalso
+              obtain ⟨hk, _⟩ := h.qv q' hqm w0 (lastW_some hl0).1 hr'.symm
+              exact hkne (hk.symm.trans (lastW_some hl0).2)
+            · split
+              · exact hq'
+              · exact List.mem_cons_of_mem _ hq'
+    · -- not applied
+      have ha' : ¬ applied r f = true := by rw [ha]; simp
+      rw [if_neg ha'] at pW
+      subst hst
+      have hrne : r ≠ .ok := not_ok_of_idle ha
+      constructor
+      · rw [pCl]; exact h.kok
+      · intro s hsm
+        rw [pS] at hsm
+        rcases List.mem_append.mp hsm with hsm | hsm
+        · exact h.salph s hsm
+        · simp only [List.mem_singleton] at hsm; rw [hsm]; exact hqa
+      · rw [pQ]; intro x hx; exact h.qalph x (hQsub x hx)
+      · rw [pW]; exact h.wval
+      · rw [pSt]; exact h.sorted
+      · rw [pSt, pW]; exact h.skeys
+      · intro s hsm y hy hyr
+        rw [pS] at hsm
+        rw [pW] at hy
+        rcases List.mem_append.mp hsm with hsm | hsm
+        · exact h.sv s hsm y hy hyr
+        · simp only [List.mem_singleton] at hsm; subst hsm
+          have := hA.wle y hy; simp only at hyr; omega
+      · rw [pQ, pW]; intro x hx; exact h.qv x (hQsub x hx)
+      · intro s hsm hv
+        rw [pS] at hsm
+        rw [pW]
+        rcases List.mem_append.mp hsm with hsm | hsm
+        · exact h.svalid s hsm hv
+        · simp only [List.mem_singleton] at hsm; subst hsm
+          simp only [beq_iff_eq] at hv
+          exact absurd hv hrne
+      · rw [pS]; exact hsuniq
+      · rw [pQ, pC]; intro x hx; exact h.qle x (hQsub x hx)
+      · rw [pE, pC, pW]; exact h.em
+      · rw [pE]; exact h.emsorted
+      · intro k w0 hl0
+        rw [pE, pS, pQ]
+        rw [pW] at hl0
+        rcases h.cover k w0 hl0 with hc | ⟨s, hsm, hc⟩ | ⟨q', hq', hr'⟩
+        · exact .inl hc
+        · exact .inr (.inl ⟨s, List.mem_append_left _ hsm, hc⟩)
+        · refine .inr (.inr ⟨q', ?_, hr'⟩)
+          rw [hq] at hq'
+          split
+          · rename_i hcond
+            rcases List.mem_cons.mp hq' with rfl | hq'
+            · -- the condition of the rewrite cannot fail while the head is the last write of its key
+              exfalso
+              obtain ⟨hk, _⟩ := h.qv q' hqm w0 (lastW_some hl0).1 hr'.symm
+              have hkk : k = q'.key := (lastW_some hl0).2.symm.trans hk
+              subst hkk
+              obtain ⟨hget', hidx⟩ := read_last ctx h hb hqa hl0
+              rw [hget] at hget'
+              simp only [Option.some.injEq, Prod.mk.injEq] at hget'
+              have hfl := (isTomb_getD (h.wval w0 (lastW_some hl0).1)).1
+              rw [← hget'.1] at hfl
+              rw [← hr', ← flag_of_eq hfl] at hidx
+              have hcm := (commit_cas_put g.cfg.q g.store (idxKey q'.key)
+                (be8 (g.dealt + 1) ++ if isTomb val then [0] else [])
+                (be8 q'.rev ++ if isTomb val then [0] else []) (encode q'.key (g.dealt + 1)) val _).mpr ⟨hidx, rfl⟩
+              have hnc := doCommit_ok_not_conflict (f := f) hcm
+              rw [hdc] at hnc
+              simp only [Bool.or_eq_true, beq_iff_eq] at hcond
+              rcases hcond with hcond | hcond
+              · exact hrne hcond
+              · cases r <;> simp [CommitRes.isCas] at hcond
+                exact hnc _ _ rfl
+            · exact hq'
+          · exact hq'
+
+/-- requests the convergence theorem admits -/
+def ActOK (a : Action) : Prop := ∀ id kind, a = .begin id kind → KOK kind
+
+theorem act_dealt_le {g0 g : G} (ctx : Ctx g0 g) (a : Action) : g.dealt ≤ (act g a).dealt := by
+  obtain ⟨hs, _⟩ := ctx.finv
+  cases a with
+  | begin id kind => unfold KB.act; simp only []; split <;> exact Nat.le_refl _
+  | step id f =>
+    unfold KB.act; simp only []
+    split
+    · exact Nat.le_refl _
+    · rename_i c hfind
+      have hc := (mem_client hfind).1
+      have hpos : ∀ r, c.pc.inflight = some r → r ≠ 0 := by
+        intro r hr
+        have := hs.inflR c hc r hr
+        omega
+      have hid : ∀ c' ∈ g.clients, c'.id = c.id → c' = c := fun c' hc' e => hs.idU c' hc' c hc e
+      rcases stepClient_eff f (ctx.ack.ck c hc) hpos hid with ⟨x, s, d, e⟩ | e
+      · rw [e.dealt]; exact Nat.le_refl _
+      · rcases e.dealt with h | ⟨h, _⟩ <;> omega
+  | seq =>
+    unfold KB.act KB.stepSeq; simp only []
+    split
+    · exact Nat.le_refl _
+    · exact Nat.le_max_left _ _
+  | retry f =>
+    unfold KB.act; simp only []
+    apply stepRetry_cases' (P := fun g' => g.dealt ≤ g'.dealt)
+    · intro _; exact Nat.le_refl _
+    · intros; exact Nat.le_refl _
+    · intros; simp
+
+theorem Cv.act {g0 g : G} (ctx : Ctx g0 g) (h : Cv g) (a : Action) (ha : ActOK a)
+    (hb : (act g a).dealt < 2 ^ 64) : Cv (act g a) := by
+  cases a with
+  | begin id kind =>
+    unfold KB.act; simp only []
+    split
+    · exact h
+    · refine ⟨?_, h.salph, h.qalph, h.wval, h.sorted, h.skeys, h.sv, h.qv, h.svalid, h.suniq, h.qle, h.em,
+        h.emsorted, h.cover⟩
+      intro c hc
+      rcases List.mem_append.mp hc with hc | hc
+      · exact h.kok c hc
+      · simp only [List.mem_singleton] at hc; subst hc
+        exact ha id kind rfl
+  | step id f =>
+    unfold KB.act at hb ⊢; simp only [] at hb ⊢
+    split
+    · exact h
+    · rename_i c hfind
+      rw [hfind] at hb
+      exact h.stepClient ctx (mem_client hfind).1 f hb
+  | seq => exact h.stepSeq
+  | retry f => exact h.stepRetry ctx f hb
+
+theorem Cv.run {g0 : G} (h0 : C02.Init g0) (hs : g0.store = []) (hem : g0.emitted = []) (sched : List Action)
+    (hok : ∀ a ∈ sched, ActOK a) (hb : (run g0 sched).dealt < 2 ^ 64) : Cv (run g0 sched) := by
+  suffices ∀ sched g, Reachable g0 g → (g.dealt < 2 ^ 64 → Cv g) → (∀ a ∈ sched, ActOK a) →
+      ((KB.run g sched).dealt < 2 ^ 64 → Cv (KB.run g sched)) from
+    this sched g0 ⟨[], rfl⟩ (fun _ => Cv.init h0 hs hem) hok hb
+  intro sched
+  induction sched with
+  | nil => intro g _ hJ _; exact hJ
+  | cons a as ih =>
+    intro g hr hJ hok
+    have ctx := Ctx.reachable h0 hs hr
+    refine ih (KB.act g a) (hr.step a) ?_ (fun b hb => hok b (List.mem_cons_of_mem _ hb))
+    intro hb'
+    exact Cv.act ctx (hJ (Nat.lt_of_le_of_lt (act_dealt_le ctx a) hb')) a (hok a (List.mem_cons_self ..)) hb'
+
+/-- at quiescence the last applied write of every key is its last emitted event -/
+theorem Cv.converged {g0 g : G} (ctx : Ctx g0 g) (h : Cv g) (hb : g.dealt < 2 ^ 64) (hsl : g.slots = [])
+    (hrq : g.retryQ = []) (k : Bytes) :
+    (lastW g.wlog k).map (fun w => (w.rev, w.val.isNone)) =
+      ((g.emitted.filter (fun e => e.key == k)).getLast?).map (fun e => (e.rev, e.verb == .delete)) := by
+  have hcore := ctx.sinv.core
+  have hpw := chain_pairwise (hcore.chain hb) k
+  -- every emitted event of `k` is a logged write of `k`
+  have hev : ∀ e ∈ g.emitted.filter (fun e => e.key == k), ∃ x ∈ g.wlog.filter (fun w => w.key == k), x.rev = e.rev := by
+    intro e he
+    obtain ⟨he1, he2⟩ := List.mem_filter.mp he
+    obtain ⟨_, x, hx, h1, h2, _⟩ := h.em e he1
+    refine ⟨x, List.mem_filter.mpr ⟨hx, ?_⟩, h1⟩
+    simp only [beq_iff_eq] at he2 ⊢
+    rw [h2, he2]
+  have hsorted : (g.emitted.filter (fun e => e.key == k)).Pairwise (fun a b => a.rev < b.rev) :=
+    List.Pairwise.filter _ (List.pairwise_map.mp h.emsorted)
+  cases hl : lastW g.wlog k with
+  | none =>
+    have hnil : g.wlog.filter (fun w => w.key == k) = [] := List.getLast?_eq_none_iff.mp hl
+    have : g.emitted.filter (fun e => e.key == k) = [] := by
+      apply List.eq_nil_iff_forall_not_mem.mpr
+      intro e he
+      obtain ⟨x, hx, _⟩ := hev e he
+      rw [hnil] at hx; cases hx
+    rw [this]; rfl
+  | some w =>
+    have hwk := (lastW_some hl).2
+    rcases h.cover k w hl with ⟨e, he, h1, h2, h3⟩ | ⟨s, hs, _⟩ | ⟨q, hq, _⟩
+    · have hem : e ∈ g.emitted.filter (fun e => e.key == k) :=
+        List.mem_filter.mpr ⟨he, by simp [h2, hwk]⟩
+      cases hlast : (g.emitted.filter (fun e => e.key == k)).getLast? with
+      | none =>
+        rw [List.getLast?_eq_none_iff] at hlast
+        rw [hlast] at hem; cases hem
+      | some e' =>
+        obtain ⟨x', hx', hxr⟩ := hev e' (List.mem_of_getLast? hlast)
+        have hle := pairwise_le_last hpw hl hx'
+        rcases pairwise_getLast hsorted hlast hem with rfl | hlt
+        · simp [h1, h3]
+        · omega
+    · rw [hsl] at hs; cases hs
+    · rw [hrq] at hq; cases hq
+
+
 end KB
